@@ -1,10 +1,15 @@
-(* C09, interleaved RLE: the decoder model against the flat per-pixel semantics of RefRle.v.
+(* C09, interleaved RLE: the decoder model against the flat per-pixel semantics of RefRle.v, for ALL
+   twelve order kinds in every legal header form.
    The invariant relates the decoder's (x, height, line, prevline) to the flat position
    |out| = r * width + x  and its output buffer to the pixels written so far (row r of the
-   bottom-up raster lives at (height-1-r) * width). *)
+   bottom-up raster lives at (height-1-r) * width).  The repeat! macro is handled once, for any
+   expression, through [step_px] (one macro iteration stores px(out), keeps an order-specific state
+   invariant and uses up one of the [rem] remaining pixels); expressions that only store a pixel
+   come in through [body_px]; FGBG images carry (mask, mixmask, input) in [Ifom], dithered runs
+   (bicolour, count) in [Idith]. *)
 From RdpV Require Import Base Buf Rle16 RefRle CodecLemmas CodecContent Rle16_proofs.
 
-Ltac Zify.zify_post_hook ::= Z.div_mod_to_equations.
+Ltac Zify.zify_post_hook ::= Z.to_euclidean_division_equations.
 
 Ltac prj := cbn [s_inp s_out s_x s_cnt s_hgt s_line s_prev s_lastop s_insmix s_c1 s_c2 s_mix s_mask s_mixmask s_bic
                  set_inp set_out set_x set_cnt set_lastop set_insmix set_c1 set_c2 set_mix set_mask set_mixmask set_bic
@@ -22,9 +27,6 @@ Proof. unfold same_params. repeat split. Qed.
 Lemma same_params_trans s1 s2 s3 : same_params s1 s2 -> same_params s2 s3 -> same_params s1 s3.
 Proof. unfold same_params. intros (A1&A2&A3&A4&A5&A6) (B1&B2&B3&B4&B5&B6). repeat split; congruence. Qed.
 
-Lemma iter_plus {A} (f : A -> A) a b x : Nat.iter (a + b) f x = Nat.iter b f (Nat.iter a f x).
-Proof. rewrite Nat.add_comm. induction b as [|b IH]; [reflexivity|]. simpl. rewrite IH. reflexivity. Qed.
-
 Lemma run_add : forall a b px out, run (a + b) px out = run b px (run a px out).
 Proof. induction a as [|a IH]; intros b px out; [reflexivity|]. cbn [Nat.add run]. apply IH. Qed.
 
@@ -32,6 +34,18 @@ Lemma nlen_run : forall n px out, nlen (run n px out) = nlen out + N.of_nat n.
 Proof.
   induction n as [|n IH]; intros px out; [cbn [run]; lia|].
   cbn [run]. rewrite IH, nlen_app, nlen_cons, nlen_nil. lia.
+Qed.
+
+Lemma nlen_fgbg : forall n i w fg masks out, nlen (fgbg n i w fg masks out) = nlen out + N.of_nat n.
+Proof.
+  induction n as [|n IH]; intros i w fg masks out; [cbn [fgbg]; lia|].
+  cbn [fgbg]. rewrite IH, nlen_app, nlen_cons, nlen_nil. lia.
+Qed.
+
+Lemma nlen_dither : forall n c1 c2 out, nlen (dither n c1 c2 out) = nlen out + 2 * N.of_nat n.
+Proof.
+  induction n as [|n IH]; intros c1 c2 out; [cbn [dither]; lia|].
+  cbn [dither]. rewrite IH, nlen_app, !nlen_cons, nlen_nil. lia.
 Qed.
 
 Section Sem.
@@ -102,16 +116,25 @@ Record inl (fg : N) (r : N) (out : list N) (s : st) : Prop := mkInl {
   il_len : blen (s_out s) = L;
   il_mix : s_mix s = fg }.
 
-(* a repeat! expression that stores px(out) at the current pixel; it may consume input ([istep]) under an
-   invariant [Iinv out input count] that it re-establishes; it touches nothing else *)
-Definition body_px (fg r : N) (body : st -> outcome st) (px : list N -> N)
-           (istep : bytes -> bytes) (Iinv : list N -> bytes -> N -> Prop) : Prop :=
-  forall out s, inl fg r out s -> s_x s < w -> 1 <= s_cnt s -> Iinv out (s_inp s) (s_cnt s) ->
-    body s = Ok (set_out (set_inp s (istep (s_inp s))) (bset_raw (s_out s) ((h - 1 - r) * w + s_x s) (px out))) /\
-    Iinv (out ++ [px out]) (istep (s_inp s)) (s_cnt s - 1).
+(* inl looks only at x, height, line, prevline, output and mix *)
+Lemma inl_ext fg r out s s' :
+  inl fg r out s -> s_out s' = s_out s -> s_x s' = s_x s -> s_line s' = s_line s -> s_prev s' = s_prev s ->
+  s_hgt s' = s_hgt s -> s_mix s' = s_mix s -> inl fg r out s'.
+Proof.
+  intros [[P1 P2 P3 P4 P5 P6] Hn Hc Hl Hm] E1 E2 E3 E4 E5 E6.
+  constructor; [constructor|..]; rewrite ?E1, ?E2, ?E3, ?E4, ?E5, ?E6; auto.
+Qed.
 
-Definition no_input : list N -> bytes -> N -> Prop := fun _ _ _ => True.
-Definition keep_input : bytes -> bytes := fun i => i.
+(* a repeat! expression that does nothing but store px(out) at the current pixel; it may consume input
+   under an invariant [Iinp out input count] that it re-establishes; it touches nothing else *)
+Definition body_px (fg r : N) (body : st -> outcome st) (px : list N -> N)
+           (Iinp : list N -> bytes -> N -> Prop) : Prop :=
+  forall out s, inl fg r out s -> s_x s < w -> 1 <= s_cnt s -> Iinp out (s_inp s) (s_cnt s) ->
+    exists i', body s = Ok (set_out (set_inp s i') (bset_raw (s_out s) ((h - 1 - r) * w + s_x s) (px out))) /\
+               Iinp (out ++ [px out]) i' (s_cnt s - 1).
+
+(* the expression does not read the input: what is left is [rest] throughout *)
+Definition inp_is (rest : bytes) : list N -> bytes -> N -> Prop := fun _ i _ => i = rest.
 
 Lemma set_inp_same s : set_inp s (s_inp s) = s.
 Proof. destruct s. reflexivity. Qed.
@@ -148,23 +171,25 @@ Proof.
 Qed.
 
 (* the four plain expressions *)
-Lemma body_const fg r v : body_px fg r (b_const p v) (fun _ => v) keep_input no_input.
+Lemma body_const fg r v rest : body_px fg r (b_const p v) (fun _ => v) (inp_is rest).
 Proof.
-  intros out s Hi Hx Hc _. unfold keep_input, no_input. rewrite set_inp_same. split; [|exact I].
+  intros out s Hi Hx Hc HI. exists (s_inp s). rewrite set_inp_same. split; [|exact HI].
   unfold b_const. eapply wr_eq; eauto.
 Qed.
 
-Lemma body_bg fg r : body_px fg r (if r =? 0 then b_const p 0 else b_copy p ((h - r) * w)) (bg_px w) keep_input no_input.
+Lemma body_bg fg r rest : body_px fg r (if r =? 0 then b_const p 0 else b_copy p ((h - r) * w)) (bg_px w) (inp_is rest).
 Proof.
-  intros out s Hi Hx Hc _. unfold keep_input, no_input. rewrite set_inp_same. split; [|exact I]. unfold bg_px. rewrite (above_row fg r out s Hi Hx).
+  intros out s Hi Hx Hc HI. exists (s_inp s). rewrite set_inp_same. split; [|exact HI].
+  unfold bg_px. rewrite (above_row fg r out s Hi Hx).
   destruct (r =? 0) eqn:Er.
   - unfold b_const. eapply wr_eq; eauto.
   - apply N.eqb_neq in Er. unfold b_copy. rewrite (rd_eq fg r out s Hi Hx) by lia. cbn [obind]. eapply wr_eq; eauto.
 Qed.
 
-Lemma body_fg fg r : body_px fg r (if r =? 0 then b_mix p else b_mixprev p ((h - r) * w)) (fg_px w fg) keep_input no_input.
+Lemma body_fg fg r rest : body_px fg r (if r =? 0 then b_mix p else b_mixprev p ((h - r) * w)) (fg_px w fg) (inp_is rest).
 Proof.
-  intros out s Hi Hx Hc _. unfold keep_input, no_input. rewrite set_inp_same. split; [|exact I]. unfold fg_px. rewrite (above_row fg r out s Hi Hx).
+  intros out s Hi Hx Hc HI. exists (s_inp s). rewrite set_inp_same. split; [|exact HI].
+  unfold fg_px. rewrite (above_row fg r out s Hi Hx).
   pose proof (il_mix _ _ _ _ Hi) as Hm.
   destruct (r =? 0) eqn:Er.
   - unfold b_mix. rewrite Hm. eapply wr_eq; eauto.
@@ -172,20 +197,7 @@ Proof.
     eapply wr_eq; eauto.
 Qed.
 
-(* ---- the macro, with contents *)
-Section Rep.
-Variable fg r : N.
-Variable body : st -> outcome st.
-Variable px : list N -> N.
-Variable istep : bytes -> bytes.
-Variable Iinv : list N -> bytes -> N -> Prop.
-Hypothesis Hbody : body_px fg r body px istep Iinv.
-
-Definition after (n : nat) (out : list N) (s s' : st) : Prop :=
-  inl fg r (run n px out) s' /\ s_x s' = s_x s + N.of_nat n /\ s_cnt s' + N.of_nat n = s_cnt s /\ same_params s s' /\
-  s_inp s' = Nat.iter n istep (s_inp s) /\ Iinv (run n px out) (s_inp s') (s_cnt s').
-
-Lemma inl_written out s v x' c' i' :
+Lemma inl_written fg r out s v x' c' i' :
   inl fg r out s -> s_x s < w -> x' = s_x s + 1 ->
   inl fg r (out ++ [v]) (set_x (set_cnt (set_out (set_inp s i') (bset_raw (s_out s) ((h - 1 - r) * w + s_x s) v)) c') x').
 Proof.
@@ -198,91 +210,138 @@ Proof.
   - exact Hm.
 Qed.
 
-Lemma after_refl out s : inl fg r out s -> Iinv out (s_inp s) (s_cnt s) -> after 0 out s s.
-Proof. intros Hi HI. unfold after. cbn [run Nat.iter nat_rect]. fin. apply same_params_refl. Qed.
+(* ---- the macro, with contents.
+   In general a repeat! expression is characterised through ONE macro iteration `$expr; $count -= 1; $x += 1`:
+   it stores px(out) at the current pixel, re-establishes an order-specific invariant [Iinv out s] on the whole
+   decoder state (input left, mask / mixmask, bicolour, ...) and decreases by one the number [rem s] of pixels
+   the order still has to produce (= count for every order except the dithered run, whose expression itself
+   increments count on every other pixel). *)
+Definition step_px (fg r : N) (body : st -> outcome st) (px : list N -> N)
+           (Iinv : list N -> st -> Prop) (rem : st -> N) : Prop :=
+  forall out s, inl fg r out s -> s_x s < w -> 1 <= rem s -> Iinv out s ->
+    exists s', step p body s = Ok s' /\ inl fg r (out ++ [px out]) s' /\ s_x s' = s_x s + 1 /\
+               Iinv (out ++ [px out]) s' /\ rem s' + 1 = rem s.
+
+(* how the loop conditions on count read in terms of rem *)
+Definition rem_ok (Iinv : list N -> st -> Prop) (rem : st -> N) : Prop :=
+  forall out s, Iinv out s -> (0 < s_cnt s <-> 0 < rem s) /\ (8 <= s_cnt s -> 8 <= rem s).
+
+(* expressions that only store a pixel: rem = count, and any predicate K on the parameters survives *)
+Definition Iio (Iinp : list N -> bytes -> N -> Prop) (K : st -> Prop) : list N -> st -> Prop :=
+  fun out s => Iinp out (s_inp s) (s_cnt s) /\ K s.
+
+Lemma step_of_body fg r body px Iinp (K : st -> Prop) :
+  (forall s s', K s -> same_params s s' -> K s') ->
+  body_px fg r body px Iinp -> step_px fg r body px (Iio Iinp K) s_cnt.
+Proof.
+  intros HK Hbody out s Hi Hx Hc [HI HKs]. unfold step.
+  destruct (Hbody out s Hi Hx Hc HI) as (i' & Eb & HI'). rewrite Eb. cbn [obind]. prj.
+  rewrite sub32 by lia. cbn [obind].
+  pose proof (ps_xw _ _ _ (il_pos _ _ _ _ Hi)).
+  rewrite add64 by lia. cbn [obind].
+  eexists. split; [reflexivity|]. split; [apply inl_written; auto|]. prj.
+  split; [reflexivity|]. split; [|lia]. split; [exact HI'|].
+  eapply HK; [exact HKs|]. unfold same_params. prj. fin.
+Qed.
+
+Lemma rem_ok_io Iinp K : rem_ok (Iio Iinp K) s_cnt.
+Proof. intros out s _. split; [reflexivity|auto]. Qed.
+
+Section Rep.
+Variable fg r : N.
+Variable body : st -> outcome st.
+Variable px : list N -> N.
+Variable Iinv : list N -> st -> Prop.
+Variable rem : st -> N.
+Hypothesis Hstep : step_px fg r body px Iinv rem.
+Hypothesis Hrem : rem_ok Iinv rem.
+
+Definition after (n : nat) (out : list N) (s s' : st) : Prop :=
+  inl fg r (run n px out) s' /\ s_x s' = s_x s + N.of_nat n /\ rem s' + N.of_nat n = rem s /\ Iinv (run n px out) s'.
+
+Lemma after_refl out s : inl fg r out s -> Iinv out s -> after 0 out s s.
+Proof. intros Hi HI. unfold after. cbn [run]. fin. Qed.
 
 Lemma after_trans a b out s s1 s2 :
   after a out s s1 -> after b (run a px out) s1 s2 -> after (a + b) out s s2.
 Proof.
-  intros (Hi1 & Hx1 & Hc1 & Hp1 & Hn1 & HI1) (Hi2 & Hx2 & Hc2 & Hp2 & Hn2 & HI2).
+  intros (Hi1 & Hx1 & Hc1 & HI1) (Hi2 & Hx2 & Hc2 & HI2).
   unfold after. rewrite run_add. fin.
-  - eapply same_params_trans; eauto.
-  - rewrite Hn2, Hn1. symmetry. apply iter_plus.
 Qed.
 
-Lemma step_eq out s : inl fg r out s -> s_x s < w -> 1 <= s_cnt s -> Iinv out (s_inp s) (s_cnt s) ->
+Lemma step_eq out s : inl fg r out s -> s_x s < w -> 1 <= rem s -> Iinv out s ->
   exists s', step p body s = Ok s' /\ after 1 out s s'.
 Proof.
-  intros Hi Hx Hc HI. unfold step. destruct (Hbody out s Hi Hx Hc HI) as [Eb HI']. rewrite Eb. cbn [obind]. prj.
-  rewrite sub32 by lia. cbn [obind].
-  pose proof (ps_xw _ _ _ (il_pos _ _ _ _ Hi)).
-  rewrite add64 by lia. cbn [obind].
-  eexists. split; [reflexivity|]. unfold after. cbn [run Nat.iter nat_rect]. split; [apply inl_written; auto|].
-  prj. fin. unfold same_params. prj. fin.
+  intros Hi Hx Hc HI. destruct (Hstep out s Hi Hx Hc HI) as (s' & E & Hi' & Hx' & HI' & Hr').
+  exists s'. split; [exact E|]. unfold after. cbn [run]. fin.
 Qed.
 
-Lemma steps_eq : forall n out s, inl fg r out s -> s_x s + N.of_nat n <= w -> N.of_nat n <= s_cnt s ->
-  Iinv out (s_inp s) (s_cnt s) ->
+Lemma steps_eq : forall n out s, inl fg r out s -> s_x s + N.of_nat n <= w -> N.of_nat n <= rem s ->
+  Iinv out s ->
   exists s', steps p n body s = Ok s' /\ after n out s s'.
 Proof.
   induction n as [|n IH]; intros out s Hi Hx Hc HI.
   - cbn [steps]. exists s. split; [reflexivity|]. apply after_refl; assumption.
   - cbn [steps]. destruct (step_eq out s Hi ltac:(lia) ltac:(lia) HI) as (s1 & -> & Ha1).
-    cbn [obind]. pose proof Ha1 as (Hi1 & Hx1 & Hc1 & Hp1 & Hn1 & HI1). cbn [run] in Hi1, HI1.
+    cbn [obind]. pose proof Ha1 as (Hi1 & Hx1 & Hc1 & HI1). cbn [run] in Hi1, HI1.
     destruct (IH (out ++ [px out]) s1 Hi1 ltac:(lia) ltac:(lia) HI1) as (s2 & E2 & Ha2).
     exists s2. split; [exact E2|]. change (S n) with (1 + n)%nat. eapply after_trans; eauto.
 Qed.
 
 Lemma rep_blk_eq : forall fuel out s, inl fg r out s -> (N.to_nat (w - s_x s) < fuel)%nat ->
-  Iinv out (s_inp s) (s_cnt s) ->
-  exists j s', rep_blk p w fuel body s = Ok s' /\ after j out s s' /\ N.of_nat j <= s_cnt s.
+  Iinv out s ->
+  exists j s', rep_blk p w fuel body s = Ok s' /\ after j out s s' /\ N.of_nat j <= rem s.
 Proof.
   induction fuel as [|k IH]; intros out s Hi Hf HI; [lia|].
   cbn [rep_blk].
-  assert (Hrefl : exists j s', Ok s = Ok s' /\ after j out s s' /\ N.of_nat j <= s_cnt s).
+  assert (Hrefl : exists j s', Ok s = Ok s' /\ after j out s s' /\ N.of_nat j <= rem s).
   { exists O, s. split; [reflexivity|]. split; [apply after_refl; assumption|lia]. }
   destruct (8 <=? s_cnt s) eqn:E8; [|exact Hrefl]. apply N.leb_le in E8.
+  destruct (Hrem out s HI) as [_ Hr8]. specialize (Hr8 E8).
   pose proof (ps_xw _ _ _ (il_pos _ _ _ _ Hi)) as Hxw.
   rewrite add64 by lia. cbn [obind].
   destruct (s_x s + 8 <? w) eqn:Ex; [|exact Hrefl]. apply N.ltb_lt in Ex.
   destruct (steps_eq 8 out s Hi ltac:(cbn; lia) ltac:(cbn; lia) HI) as (s1 & -> & Ha1).
-  cbn [obind]. pose proof Ha1 as (Hi1 & Hx1 & Hc1 & Hp1 & Hn1 & HI1). cbn in Hx1, Hc1.
+  cbn [obind]. pose proof Ha1 as (Hi1 & Hx1 & Hc1 & HI1). cbn in Hx1, Hc1.
   destruct (IH (run 8 px out) s1 Hi1 ltac:(lia) HI1) as (j & s2 & E2 & Ha2 & Hj).
   exists (8 + j)%nat, s2. split; [exact E2|]. split; [eapply after_trans; eauto|lia].
 Qed.
 
 Lemma rep_tail_eq : forall fuel out s, inl fg r out s -> (N.to_nat (w - s_x s) < fuel)%nat ->
-  Iinv out (s_inp s) (s_cnt s) ->
-  exists s', rep_tail p w fuel body s = Ok s' /\ after (N.to_nat (N.min (s_cnt s) (w - s_x s))) out s s'.
+  Iinv out s ->
+  exists s', rep_tail p w fuel body s = Ok s' /\ after (N.to_nat (N.min (rem s) (w - s_x s))) out s s'.
 Proof.
   induction fuel as [|k IH]; intros out s Hi Hf HI; [lia|].
   cbn [rep_tail].
   pose proof (ps_xw _ _ _ (il_pos _ _ _ _ Hi)) as Hxw.
+  destruct (Hrem out s HI) as [Hr0 _].
   destruct (0 <? s_cnt s) eqn:E0; cbn [andb].
-  - apply N.ltb_lt in E0. destruct (s_x s <? w) eqn:Ex.
+  - apply N.ltb_lt in E0. apply Hr0 in E0. destruct (s_x s <? w) eqn:Ex.
     + apply N.ltb_lt in Ex.
       destruct (step_eq out s Hi Ex ltac:(lia) HI) as (s1 & -> & Ha1). cbn [obind].
-      pose proof Ha1 as (Hi1 & Hx1 & Hc1 & Hp1 & Hn1 & HI1). cbn [run] in Hi1, HI1.
+      pose proof Ha1 as (Hi1 & Hx1 & Hc1 & HI1). cbn [run] in Hi1, HI1.
       destruct (IH (out ++ [px out]) s1 Hi1 ltac:(lia) HI1) as (s2 & E2 & Ha2).
       exists s2. split; [exact E2|].
-      replace (N.to_nat (N.min (s_cnt s) (w - s_x s))) with (1 + N.to_nat (N.min (s_cnt s1) (w - s_x s1)))%nat by lia.
+      replace (N.to_nat (N.min (rem s) (w - s_x s))) with (1 + N.to_nat (N.min (rem s1) (w - s_x s1)))%nat by lia.
       eapply after_trans; eauto.
     + apply N.ltb_ge in Ex. exists s. split; [reflexivity|].
-      replace (N.to_nat (N.min (s_cnt s) (w - s_x s))) with O by lia. apply after_refl; assumption.
+      replace (N.to_nat (N.min (rem s) (w - s_x s))) with O by lia. apply after_refl; assumption.
   - apply N.ltb_ge in E0. exists s. split; [reflexivity|].
-    replace (N.to_nat (N.min (s_cnt s) (w - s_x s))) with O by lia. apply after_refl; assumption.
+    assert (Hz : rem s = 0).
+    { destruct (N.eq_dec (rem s) 0) as [Hz|Hnz]; [exact Hz|]. assert (Hp : 0 < rem s) by lia. apply Hr0 in Hp. lia. }
+    replace (N.to_nat (N.min (rem s) (w - s_x s))) with O by lia. apply after_refl; assumption.
 Qed.
 
-Lemma repeat_eq out s : inl fg r out s -> Iinv out (s_inp s) (s_cnt s) ->
-  exists s', repeat_m p w body s = Ok s' /\ after (N.to_nat (N.min (s_cnt s) (w - s_x s))) out s s'.
+Lemma repeat_eq out s : inl fg r out s -> Iinv out s ->
+  exists s', repeat_m p w body s = Ok s' /\ after (N.to_nat (N.min (rem s) (w - s_x s))) out s s'.
 Proof.
   intros Hi HI. unfold repeat_m.
   destruct (rep_blk_eq (S (N.to_nat w)) out s Hi ltac:(lia) HI) as (j & s1 & -> & Ha1 & Hj).
-  cbn [obind]. pose proof Ha1 as (Hi1 & Hx1 & Hc1 & Hp1 & Hn1 & HI1).
+  cbn [obind]. pose proof Ha1 as (Hi1 & Hx1 & Hc1 & HI1).
   destruct (rep_tail_eq (S (N.to_nat w)) (run j px out) s1 Hi1 ltac:(lia) HI1) as (s2 & E2 & Ha2).
   exists s2. split; [exact E2|].
   pose proof (ps_xw _ _ _ (il_pos _ _ _ _ Hi1)) as Hxw.
-  replace (N.to_nat (N.min (s_cnt s) (w - s_x s))) with (j + N.to_nat (N.min (s_cnt s1) (w - s_x s1)))%nat by lia.
+  replace (N.to_nat (N.min (rem s) (w - s_x s))) with (j + N.to_nat (N.min (rem s1) (w - s_x s1)))%nat by lia.
   eapply after_trans; eauto.
 Qed.
 
@@ -303,16 +362,17 @@ Proof.
 Qed.
 
 Lemma body_img fg r n0 pixels rest : Forall (fun v => v < 65536) pixels ->
-  body_px fg r (b_colimg p) (px_img n0 pixels) (skipn 2) (Iimg n0 pixels rest).
+  body_px fg r (b_colimg p) (px_img n0 pixels) (Iimg n0 pixels rest).
 Proof.
   intros Hpix out s Hi Hx Hc (pre & post & Hpp & Hn & Hpost & Hinp).
   destruct post as [|v post]; [rewrite nlen_nil in Hpost; lia|].
   assert (Hv : v < 65536).
   { apply (proj1 (Forall_forall _ _) Hpix). rewrite Hpp. apply in_or_app. right. left. reflexivity. }
+  exists (le16s post ++ rest).
   unfold b_colimg. rewrite Hinp. cbn [le16s flat_map le16 app read_u16le]. rewrite le16_roundtrip by exact Hv.
   assert (Hi' : inl fg r out (set_inp s (flat_map le16 post ++ rest))).
-  { destruct Hi as [[Q1 Q2 Q3 Q4 Q5 Q6] Q7 Q8 Q9 Q10]. constructor; [constructor|..]; prj; auto. }
-  rewrite (wr_eq fg r out _ v Hi') by (prj; exact Hx). prj. cbn [skipn].
+  { eapply inl_ext; [exact Hi|..]; reflexivity. }
+  rewrite (wr_eq fg r out _ v Hi') by (prj; exact Hx). prj.
   assert (Hpx : px_img n0 pixels out = v).
   { unfold px_img. rewrite Hpp, Hn. replace (n0 + nlen pre - n0) with (nlen pre) by lia.
     rewrite app_nth2 by (unfold nlen; lia). replace (N.to_nat (nlen pre) - length pre)%nat with O by (unfold nlen; lia). reflexivity. }
@@ -335,7 +395,8 @@ Definition meas (s : st) : nat := (N.to_nat (s_hgt s) + (if N.ltb (s_x s) w then
 Lemma next_line_eq fg out s : lazy fg out s -> nlen out < w * h ->
   exists r s1, next_line p w s = Ok s1 /\ inl fg r out s1 /\ s_x s1 < w /\ s_cnt s1 = s_cnt s /\ same_params s s1 /\
                s_inp s1 = s_inp s /\
-               (if w <=? s_x s then s_hgt s1 + 1 = s_hgt s else s_hgt s1 = s_hgt s).
+               (if w <=? s_x s then s_hgt s1 + 1 = s_hgt s else s_hgt s1 = s_hgt s) /\
+               (s1 = s \/ exists hgt l, s1 = set_newline s hgt l).
 Proof.
   intros (Hl & Hc & Hm & Hcase) Hn. unfold next_line.
   destruct Hcase as [(-> & Hx & Hline & Hprev & Hhgt)|(r & Hp & Hnr & _)].
@@ -350,7 +411,7 @@ Proof.
     split.
     + constructor; prj; auto; try (rewrite nlen_nil; lia).
       constructor; prj; auto; try lia; try (f_equal; f_equal; lia).
-    + prj. fin. unfold same_params. prj. fin.
+    + prj. fin; [unfold same_params; prj; fin|]. right. eexists _, _. reflexivity.
   - destruct Hp as [P1 P2 P3 P4 P5 P6].
     destruct (w <=? s_x s) eqn:Ew.
     + apply N.leb_le in Ew. assert (Hxw : s_x s = w) by lia.
@@ -367,7 +428,7 @@ Proof.
         constructor; prj; auto; try lia.
         constructor; prj; auto; try lia; try (f_equal; f_equal; lia).
         rewrite E1, P5. f_equal. f_equal. lia.
-      * prj. fin. unfold same_params. prj. fin.
+      * prj. fin; [unfold same_params; prj; fin|]. right. eexists _, _. reflexivity.
     + apply N.leb_gt in Ew.
       exists r, s. split; [reflexivity|]. split.
       * constructor; auto. constructor; auto.
@@ -379,35 +440,41 @@ Section Loop.
 Variable fg : N.
 Variables op fom : N.
 Variable px : list N -> N.
-Variable istep : bytes -> bytes.
-Variable Iinv : list N -> bytes -> N -> Prop.
-Variable K : st -> Prop.
-Hypothesis HK : forall s s', K s -> same_params s s' -> K s'.
-Hypothesis Hop : forall r out s, inl fg r out s -> K s ->
-  exists body, handler p w op fom s = repeat_m p w body s /\ body_px fg r body px istep Iinv.
+Variable Iinv : list N -> st -> Prop.
+Variable rem : st -> N.
+Hypothesis Hrem : rem_ok Iinv rem.
+Hypothesis Hnl : forall out s hgt l, Iinv out s -> Iinv out (set_newline s hgt l) /\ rem (set_newline s hgt l) = rem s.
+Hypothesis Hop : forall r out s, inl fg r out s -> Iinv out s ->
+  exists body, handler p w op fom s = repeat_m p w body s /\ step_px fg r body px Iinv rem.
 
 Lemma run_loop : forall fuel out s,
-  lazy fg out s -> K s -> Iinv out (s_inp s) (s_cnt s) -> nlen out + s_cnt s <= w * h ->
+  lazy fg out s -> Iinv out s -> nlen out + rem s <= w * h ->
   (s_cnt s = 0 /\ (1 <= fuel)%nat) \/ (meas s < fuel)%nat ->
-  exists s', cnt_loop p w fuel op fom s = Ok s' /\ lazy fg (run (N.to_nat (s_cnt s)) px out) s' /\
-             same_params s s' /\ s_cnt s' = 0 /\ s_inp s' = Nat.iter (N.to_nat (s_cnt s)) istep (s_inp s).
+  exists s', cnt_loop p w fuel op fom s = Ok s' /\ lazy fg (run (N.to_nat (rem s)) px out) s' /\
+             Iinv (run (N.to_nat (rem s)) px out) s' /\ s_cnt s' = 0.
 Proof.
-  induction fuel as [|k IH]; intros out s Hlz HKs HI Hn Hf; [lia|].
+  induction fuel as [|k IH]; intros out s Hlz HI Hn Hf; [lia|].
+  destruct (Hrem out s HI) as [Hr0 _].
   cbn [cnt_loop]. destruct (0 <? s_cnt s) eqn:E0.
-  2:{ apply N.ltb_ge in E0. assert (Ez : s_cnt s = 0) by lia. rewrite Ez. cbn [N.to_nat run Nat.iter nat_rect].
-      exists s. fin. apply same_params_refl. }
+  2:{ apply N.ltb_ge in E0.
+      assert (Hz : rem s = 0).
+      { destruct (N.eq_dec (rem s) 0) as [Hz|Hnz]; [exact Hz|]. assert (Hp : 0 < rem s) by lia. apply Hr0 in Hp. lia. }
+      rewrite Hz. cbn [N.to_nat run]. exists s. fin. }
   apply N.ltb_lt in E0. destruct Hf as [Hf|Hf]; [lia|].
-  destruct (next_line_eq fg out s Hlz ltac:(lia)) as (r & s1 & -> & Hi1 & Hx1 & Hc1 & Hp1 & Hn1 & Hh1).
+  pose proof (proj1 Hr0 E0) as Hrpos.
+  destruct (next_line_eq fg out s Hlz ltac:(lia)) as (r & s1 & -> & Hi1 & Hx1 & Hc1 & Hp1 & Hn1 & Hh1 & Hshape).
   cbn [obind].
-  destruct (Hop r out s1 Hi1 (HK _ _ HKs Hp1)) as (body & -> & Hbody).
-  destruct (repeat_eq fg r body px istep Iinv Hbody out s1 Hi1) as (s2 & -> & Ha2); [rewrite Hn1, Hc1; exact HI|].
-  cbn [obind]. destruct Ha2 as (Hi2 & Hx2 & Hc2 & Hp2 & Hn2 & HI2).
-  set (kk := N.to_nat (N.min (s_cnt s1) (w - s_x s1))) in *.
+  assert (HI1 : Iinv out s1 /\ rem s1 = rem s).
+  { destruct Hshape as [->|(hg & l & ->)]; [split; [exact HI|reflexivity]|apply Hnl; exact HI]. }
+  destruct HI1 as [HI1 Hr1].
+  destruct (Hop r out s1 Hi1 HI1) as (body & -> & Hbody).
+  destruct (repeat_eq fg r body px Iinv rem Hbody Hrem out s1 Hi1 HI1) as (s2 & -> & Ha2).
+  cbn [obind]. destruct Ha2 as (Hi2 & Hx2 & Hc2 & HI2).
+  set (kk := N.to_nat (N.min (rem s1) (w - s_x s1))) in *.
   assert (Hkk : (1 <= kk)%nat) by lia.
   assert (Hk2 : nlen (run kk px out) = nlen out + N.of_nat kk) by apply nlen_run.
-  destruct (IH (run kk px out) s2 (inl_lazy _ _ _ _ Hi2 ltac:(lia))) as (s3 & E3 & Hlz3 & Hp3 & Hc3 & Hn3).
-  - eapply HK; [|exact Hp2]. eapply HK; eauto.
-  - exact HI2.
+  destruct (Hrem _ _ HI2) as [Hr02 _].
+  destruct (IH (run kk px out) s2 (inl_lazy _ _ _ _ Hi2 ltac:(lia)) HI2) as (s3 & E3 & Hlz3 & HI3 & Hc3).
   - lia.
   - (* fuel *)
     unfold meas in *.
@@ -415,79 +482,122 @@ Proof.
     + destruct (w <=? s_x s) eqn:Ew.
       * apply N.leb_le in Ew. destruct (N.ltb (s_x s) w) eqn:Ex; [apply N.ltb_lt in Ex; lia|]. lia.
       * apply N.leb_gt in Ew. destruct (N.ltb (s_x s) w) eqn:Ex; [|apply N.ltb_ge in Ex; lia]. lia.
-    + assert (Hx2w : s_x s2 = w) by lia.
+    + assert (Hrem2 : 0 < rem s2) by (apply Hr02; lia).
+      assert (Hx2w : s_x s2 = w) by lia.
       pose proof (ps_h _ _ _ (il_pos _ _ _ _ Hi2)) as Hh2. pose proof (ps_h _ _ _ (il_pos _ _ _ _ Hi1)) as Hh1'.
       destruct (N.ltb (s_x s2) w) eqn:Ex2; [apply N.ltb_lt in Ex2; lia|].
       destruct (w <=? s_x s) eqn:Ew.
       * apply N.leb_le in Ew. destruct (N.ltb (s_x s) w) eqn:Ex; [apply N.ltb_lt in Ex; lia|]. lia.
       * apply N.leb_gt in Ew. destruct (N.ltb (s_x s) w) eqn:Ex; [|apply N.ltb_ge in Ex; lia]. lia.
   - exists s3. split; [exact E3|].
-    replace (N.to_nat (s_cnt s)) with (kk + N.to_nat (s_cnt s2))%nat by lia.
-    rewrite run_add. split; [exact Hlz3|]. split.
-    + eapply same_params_trans; [exact Hp1|]. eapply same_params_trans; eauto.
-    + split; [exact Hc3|]. rewrite Hn3, Hn2, Hn1. symmetry. apply iter_plus.
+    replace (N.to_nat (rem s)) with (kk + N.to_nat (rem s2))%nat by lia.
+    rewrite run_add. fin.
+Qed.
+
+(* the same from the state an order header leaves *)
+Lemma order_run out s1 n :
+  lazy fg out s1 -> Iinv out (set_cnt (set_mixmask (set_lastop s1 op) 0) n) ->
+  nlen out + rem (set_cnt (set_mixmask (set_lastop s1 op) 0) n) <= w * h ->
+  exists s', cnt_loop p w (S (S (N.to_nat (s_hgt s1)))) op fom (set_cnt (set_mixmask (set_lastop s1 op) 0) n) = Ok s' /\
+             lazy fg (run (N.to_nat (rem (set_cnt (set_mixmask (set_lastop s1 op) 0) n))) px out) s' /\
+             Iinv (run (N.to_nat (rem (set_cnt (set_mixmask (set_lastop s1 op) 0) n))) px out) s' /\ s_cnt s' = 0.
+Proof.
+  intros Hlz HI Hn.
+  set (s2 := set_cnt (set_mixmask (set_lastop s1 op) 0) n) in *.
+  apply run_loop; auto.
+  - destruct Hlz as (Hl & Hc & Hm & Hcase). unfold lazy. subst s2. prj. fin.
+    destruct Hcase as [H0|(r & [P1 P2 P3 P4 P5 P6] & Hnn & Hx)]; [left; exact H0|right].
+    exists r. split; [|split; assumption]. constructor; prj; auto.
+  - right. unfold meas. subst s2. prj. destruct (N.ltb (s_x s1) w); lia.
 Qed.
 
 End Loop.
 
+(* the parameters an order must leave alone for the next one *)
+Definition Kst (op : N) (s : st) : Prop := s_lastop s = op /\ s_insmix s = false /\ s_bic s = false.
+
+Lemma Kst_same op s s' : Kst op s -> same_params s s' -> Kst op s'.
+Proof. intros (A1 & A2 & A3) (B1 & B2 & B3 & B4 & B5 & B6). unfold Kst. repeat split; congruence. Qed.
+
+Lemma same_params_newline s hgt l : same_params s (set_newline s hgt l).
+Proof. unfold same_params. prj. fin. Qed.
+
+(* a plain run of n pixels from the state an order header leaves *)
+Lemma plain_run fg op fom px Iinp (K : st -> Prop) out s1 n :
+  (forall s s', K s -> same_params s s' -> K s') ->
+  (forall r out s, inl fg r out s -> K s -> exists body, handler p w op fom s = repeat_m p w body s /\ body_px fg r body px Iinp) ->
+  lazy fg out s1 -> K (set_cnt (set_mixmask (set_lastop s1 op) 0) n) -> Iinp out (s_inp s1) n -> nlen out + n <= w * h ->
+  exists s', cnt_loop p w (S (S (N.to_nat (s_hgt s1)))) op fom (set_cnt (set_mixmask (set_lastop s1 op) 0) n) = Ok s' /\
+             lazy fg (run (N.to_nat n) px out) s' /\ K s' /\ Iinp (run (N.to_nat n) px out) (s_inp s') 0.
+Proof.
+  intros HK Hop Hlz HKs HI Hn.
+  destruct (order_run fg op fom px (Iio Iinp K) s_cnt (rem_ok_io Iinp K)) with (out := out) (s1 := s1) (n := n)
+    as (s' & E & Hlz' & [HI' HK'] & Hc').
+  - intros o s hg l [A B]. split; [|reflexivity]. split; [exact A|]. eapply HK; [exact B|apply same_params_newline].
+  - intros r o s Hi [A B]. destruct (Hop r o s Hi B) as (body & Eh & Hb). exists body. split; [exact Eh|].
+    apply step_of_body; assumption.
+  - exact Hlz.
+  - split; [prj; exact HI|exact HKs].
+  - prj. exact Hn.
+  - prj. exists s'. rewrite Hc' in HI'. fin.
+Qed.
 
 (* ---- the handlers of the plain orders are the macro applied to one of the expressions above *)
-Lemma hop_bg fg fom r out s : inl fg r out s -> s_insmix s = false ->
-  exists body, handler p w 0 fom s = repeat_m p w body s /\ body_px fg r body (bg_px w) keep_input no_input.
+Lemma hop_bg fg fom rest r out s : inl fg r out s -> s_insmix s = false ->
+  exists body, handler p w 0 fom s = repeat_m p w body s /\ body_px fg r body (bg_px w) (inp_is rest).
 Proof.
   intros Hi Hins. exists (if r =? 0 then b_const p 0 else b_copy p ((h - r) * w)). split; [|apply body_bg].
   unfold handler. change (0 =? 0) with true. cbv iota. rewrite Hins. cbn [obind].
   rewrite (ps_prev _ _ _ (il_pos _ _ _ _ Hi)). destruct (r =? 0); reflexivity.
 Qed.
 
-Lemma hop_fg fg fom r out s : inl fg r out s -> True ->
-  exists body, handler p w 1 fom s = repeat_m p w body s /\ body_px fg r body (fg_px w fg) keep_input no_input.
+Lemma hop_fg fg fom rest r out s : inl fg r out s ->
+  exists body, handler p w 1 fom s = repeat_m p w body s /\ body_px fg r body (fg_px w fg) (inp_is rest).
 Proof.
-  intros Hi _. exists (if r =? 0 then b_mix p else b_mixprev p ((h - r) * w)). split; [|apply body_fg].
+  intros Hi. exists (if r =? 0 then b_mix p else b_mixprev p ((h - r) * w)). split; [|apply body_fg].
   unfold handler. change (1 =? 0) with false. change (1 =? 1) with true. cbv iota.
   rewrite (ps_prev _ _ _ (il_pos _ _ _ _ Hi)). destruct (r =? 0); reflexivity.
 Qed.
 
-Lemma hop_col fg fom c r out s : inl fg r out s -> s_c2 s = c ->
-  exists body, handler p w 3 fom s = repeat_m p w body s /\ body_px fg r body (fun _ => c) keep_input no_input.
+Lemma hop_col fg fom rest c r out s : inl fg r out s -> s_c2 s = c ->
+  exists body, handler p w 3 fom s = repeat_m p w body s /\ body_px fg r body (fun _ => c) (inp_is rest).
 Proof.
   intros Hi Hc. exists (b_const p c). split; [|apply body_const].
   unfold handler. change (3 =? 0) with false. change (3 =? 1) with false. change (3 =? 2) with false.
   change (3 =? 3) with true. cbv iota. rewrite Hc. reflexivity.
 Qed.
 
-Lemma hop_img fg fom n0 pixels rest r out s : Forall (fun v => v < 65536) pixels -> inl fg r out s -> True ->
-  exists body, handler p w 4 fom s = repeat_m p w body s /\ body_px fg r body (px_img n0 pixels) (skipn 2) (Iimg n0 pixels rest).
+Lemma hop_img fg fom n0 pixels rest r out s : Forall (fun v => v < 65536) pixels -> inl fg r out s ->
+  exists body, handler p w 4 fom s = repeat_m p w body s /\ body_px fg r body (px_img n0 pixels) (Iimg n0 pixels rest).
 Proof.
-  intros Hpix Hi _. exists (b_colimg p). split; [|apply body_img; exact Hpix]. reflexivity.
+  intros Hpix Hi. exists (b_colimg p). split; [|apply body_img; exact Hpix]. reflexivity.
 Qed.
 
-Lemma hop_white fg fom r out s : inl fg r out s -> True ->
-  exists body, handler p w 13 fom s = repeat_m p w body s /\ body_px fg r body (fun _ => 65535) keep_input no_input.
-Proof. intros Hi _. exists (b_const p 65535). split; [reflexivity|apply body_const]. Qed.
+Lemma hop_white fg fom rest r out s : inl fg r out s ->
+  exists body, handler p w 13 fom s = repeat_m p w body s /\ body_px fg r body (fun _ => 65535) (inp_is rest).
+Proof. intros Hi. exists (b_const p 65535). split; [reflexivity|apply body_const]. Qed.
 
-Lemma hop_black fg fom r out s : inl fg r out s -> True ->
-  exists body, handler p w 14 fom s = repeat_m p w body s /\ body_px fg r body (fun _ => 0) keep_input no_input.
-Proof. intros Hi _. exists (b_const p 0). split; [reflexivity|apply body_const]. Qed.
-
-Lemma iter_keep n (i : bytes) : Nat.iter n keep_input i = i.
-Proof. induction n as [|n IH]; [reflexivity|]. simpl. rewrite IH. reflexivity. Qed.
+Lemma hop_black fg fom rest r out s : inl fg r out s ->
+  exists body, handler p w 14 fom s = repeat_m p w body s /\ body_px fg r body (fun _ => 0) (inp_is rest).
+Proof. intros Hi. exists (b_const p 0). split; [reflexivity|apply body_const]. Qed.
 
 (* ---- background run whose first pixel is the inserted foreground pixel *)
 Lemma bg_insert_loop fg fom : forall fuel out s,
-  lazy fg out s -> s_insmix s = true -> 1 <= s_cnt s -> nlen out + s_cnt s <= w * h -> (meas s < fuel)%nat ->
+  lazy fg out s -> s_insmix s = true -> s_lastop s = 0 -> s_bic s = false ->
+  1 <= s_cnt s -> nlen out + s_cnt s <= w * h -> (meas s < fuel)%nat ->
   exists s', cnt_loop p w fuel 0 fom s = Ok s' /\
              lazy fg (run (N.to_nat (s_cnt s) - 1) (bg_px w) (out ++ [fg_px w fg out])) s' /\
-             s_insmix s' = false /\ s_lastop s' = s_lastop s /\ s_cnt s' = 0 /\ s_inp s' = s_inp s.
+             Kst 0 s' /\ s_inp s' = s_inp s.
 Proof.
-  intros fuel out s Hlz Hins Hc Hn Hf. destruct fuel as [|k]; [lia|].
+  intros fuel out s Hlz Hins Hlo Hbic Hc Hn Hf. destruct fuel as [|k]; [lia|].
   cbn [cnt_loop]. assert (E0 : 0 <? s_cnt s = true) by (apply N.ltb_lt; lia). rewrite E0.
-  destruct (next_line_eq fg out s Hlz ltac:(lia)) as (r & s1 & -> & Hi1 & Hx1 & Hc1 & Hp1 & Hn1 & Hh1).
+  destruct (next_line_eq fg out s Hlz ltac:(lia)) as (r & s1 & -> & Hi1 & Hx1 & Hc1 & Hp1 & Hn1 & Hh1 & _).
   cbn [obind].
   pose proof Hp1 as (Q1 & Q2 & Q3 & Q4 & Q5 & Q6).
   (* the inserted pixel *)
   unfold handler. change (0 =? 0) with true. cbv iota. rewrite Q2, Hins.
-  pose proof (body_fg fg r out s1 Hi1 Hx1 ltac:(lia) I) as [Eb _]. unfold keep_input in Eb. rewrite set_inp_same in Eb.
+  destruct (body_fg fg r (s_inp s1) out s1 Hi1 Hx1 ltac:(lia) eq_refl) as (i' & Eb & Ei'). unfold inp_is in Ei'. subst i'.
+  rewrite set_inp_same in Eb.
   assert (Ebody : match s_prev s1 with Some e => b_mixprev p e s1 | None => b_mix p s1 end =
                   Ok (set_out s1 (bset_raw (s_out s1) ((h - 1 - r) * w + s_x s1) (fg_px w fg out)))).
   { rewrite (ps_prev _ _ _ (il_pos _ _ _ _ Hi1)). destruct (r =? 0); exact Eb. }
@@ -501,31 +611,31 @@ Proof.
   { destruct Hi1 as [[P1 P2 P3 P4 P5 P6] Hnn Hcc Hll Hmm]. subst s1'. constructor; [constructor|..]; prj; auto; try lia;
       try (rewrite nlen_app, nlen_cons, nlen_nil; lia); try (apply cont_snoc; auto; fail);
       try (rewrite blen_bset_raw; exact Hll). }
-  assert (Hins1' : s_insmix s1' = false) by (subst s1'; prj; reflexivity).
-  destruct (hop_bg fg fom r (out ++ [v]) s1' Hi1' Hins1') as (body & Eh & Hbody).
-  unfold handler in Eh. change (0 =? 0) with true in Eh. cbv iota in Eh. rewrite Hins1' in Eh. cbn [obind] in Eh.
-  rewrite Eh.
-  destruct (repeat_eq fg r body (bg_px w) keep_input no_input Hbody (out ++ [v]) s1' Hi1' I) as (s2 & -> & Ha2).
-  cbn [obind]. destruct Ha2 as (Hi2 & Hx2 & Hc2 & Hp2 & Hn2 & _).
-  set (kk := N.to_nat (N.min (s_cnt s1') (w - s_x s1'))) in *.
+  assert (HK1' : Kst 0 s1') by (subst s1'; unfold Kst; prj; repeat split; congruence).
   assert (Hx1' : s_x s1' = s_x s1 + 1) by (subst s1'; prj; reflexivity).
   assert (Hc1' : s_cnt s1' = s_cnt s1 - 1) by (subst s1'; prj; reflexivity).
   assert (Hh1' : s_hgt s1' = s_hgt s1) by (subst s1'; prj; reflexivity).
-  assert (Hl1' : s_lastop s1' = s_lastop s1) by (subst s1'; prj; reflexivity).
   assert (Hnp1' : s_inp s1' = s_inp s1) by (subst s1'; prj; reflexivity).
-  pose proof Hp2 as (R1 & R2 & R3 & R4 & R5 & R6).
+  set (Iinv := Iio (inp_is (s_inp s)) (Kst 0)).
+  assert (Hop' : forall r0 out0 s0, inl fg r0 out0 s0 -> Iinv out0 s0 ->
+            exists body, handler p w 0 fom s0 = repeat_m p w body s0 /\ step_px fg r0 body (bg_px w) Iinv s_cnt).
+  { intros r0 out0 s0 Hi0 [_ Hk0]. destruct (hop_bg fg fom (s_inp s) r0 out0 s0 Hi0 (proj1 (proj2 Hk0))) as (body & Eh & Hb).
+    exists body. split; [exact Eh|]. apply step_of_body; [apply Kst_same|exact Hb]. }
+  assert (HI1' : Iinv (out ++ [v]) s1') by (split; [unfold inp_is; congruence|exact HK1']).
+  destruct (Hop' r (out ++ [v]) s1' Hi1' HI1') as (body & Eh & Hbody).
+  unfold handler in Eh. change (0 =? 0) with true in Eh. cbv iota in Eh.
+  rewrite (proj1 (proj2 HK1')) in Eh. cbn [obind] in Eh. fold s1'. rewrite Eh.
+  destruct (repeat_eq fg r body (bg_px w) Iinv s_cnt Hbody (rem_ok_io _ _) (out ++ [v]) s1' Hi1' HI1') as (s2 & -> & Ha2).
+  cbn [obind]. destruct Ha2 as (Hi2 & Hx2 & Hc2 & HI2).
+  set (kk := N.to_nat (N.min (s_cnt s1') (w - s_x s1'))) in *.
   assert (Hk2 : nlen (run kk (bg_px w) (out ++ [v])) = nlen out + 1 + N.of_nat kk).
   { rewrite nlen_run, nlen_app, nlen_cons, nlen_nil. lia. }
-  assert (HK' : forall sa sb, s_insmix sa = false -> same_params sa sb -> s_insmix sb = false)
-    by (intros sa sb Ha (_ & Hb & _); congruence).
-  assert (Hop' : forall r0 out0 s0, inl fg r0 out0 s0 -> s_insmix s0 = false ->
-            exists body, handler p w 0 fom s0 = repeat_m p w body s0 /\ body_px fg r0 body (bg_px w) keep_input no_input)
-    by (intros r0 out0 s0 Hi0 Hk0; apply (hop_bg fg fom r0 out0 s0 Hi0 Hk0)).
-  destruct (run_loop fg 0 fom (bg_px w) keep_input no_input (fun s => s_insmix s = false) HK' Hop'
-                     k (run kk (bg_px w) (out ++ [v])) s2) as (s3 & E3 & Hlz3 & Hp3 & Hc3 & Hn3).
+  destruct (run_loop fg 0 fom (bg_px w) Iinv s_cnt (rem_ok_io _ _)) with (fuel := k) (out := run kk (bg_px w) (out ++ [v])) (s := s2)
+    as (s3 & E3 & Hlz3 & [HI3 HK3] & Hc3).
+  - intros o s0 hg l [A B]. split; [|reflexivity]. split; [exact A|]. eapply Kst_same; [exact B|apply same_params_newline].
+  - exact Hop'.
   - apply (inl_lazy _ _ _ _ Hi2). lia.
-  - congruence.
-  - exact I.
+  - exact HI2.
   - lia.
   - unfold meas in *.
     pose proof (ps_h _ _ _ (il_pos _ _ _ _ Hi2)) as Hh2. pose proof (ps_h _ _ _ (il_pos _ _ _ _ Hi1')) as Hh1''.
@@ -540,10 +650,7 @@ Proof.
       * apply N.leb_gt in Ew. destruct (N.ltb (s_x s) w) eqn:Ex; [|apply N.ltb_ge in Ex; lia]. lia.
   - exists s3. split; [exact E3|].
     replace (N.to_nat (s_cnt s) - 1)%nat with (kk + N.to_nat (s_cnt s2))%nat by lia.
-    rewrite run_add. split; [exact Hlz3|].
-    destruct Hp3 as (T1 & T2 & T3 & T4 & T5 & T6).
-    split; [congruence|]. split; [congruence|]. split; [exact Hc3|].
-    rewrite Hn3, iter_keep, Hn2, iter_keep. congruence.
+    rewrite run_add. split; [exact Hlz3|]. split; [exact HK3|exact HI3].
 Qed.
 
 
@@ -653,30 +760,364 @@ Proof.
     rewrite dh_mega by lia. split; reflexivity.
 Qed.
 
-(* the lite form (SET-FG run: opcode 6) *)
-Lemma hdr_lite6 f n hb rest :
-  hdr_run f 192 15 16 246 n = Some hb -> hdr_spec 6 n hb rest /\ 1 <= n <= 65535.
+(* the lite form (SET-FG run: opcode 6; dithered run: opcode 8) *)
+Lemma hdr_lite f op n hb rest : op = 6 \/ op = 8 ->
+  hdr_run f ((op + 6) * 16) 15 16 (240 + op) n = Some hb -> hdr_spec op n hb rest /\ 1 <= n <= 65535.
 Proof.
-  intros Hhd. unfold hdr_spec. destruct f; cbn [hdr_run] in Hhd.
+  intros Hop Hhd. unfold hdr_spec.
+  assert (Hcode : 192 <= (op + 6) * 16 /\ (op + 6) * 16 + 15 < 240) by lia.
+  destruct f; cbn [hdr_run] in Hhd.
   - destruct ((1 <=? n) && (n <=? 15)) eqn:En; [|discriminate]. inversion Hhd; subst hb. clear Hhd.
     apply andb_true_iff in En. destruct En as [E1 E2]. apply N.leb_le in E1, E2.
-    split; [|lia]. exists (192 + n), [], n, 16, rest. split; [reflexivity|]. cbn [app].
-    destruct (divmod_add 16 12 n ltac:(lia) ltac:(lia)) as [Hd Hm]. change (12 * 16) with 192 in Hd, Hm.
-    rewrite dh_lite by lia. rewrite Hd, Hm. split; [reflexivity|]. apply ec_plain; lia.
+    split; [|lia]. exists ((op + 6) * 16 + n), [], n, 16, rest. split; [reflexivity|]. cbn [app].
+    destruct (divmod_add 16 (op + 6) n ltac:(lia) ltac:(lia)) as [Hd Hm].
+    rewrite dh_lite by lia. rewrite Hd, Hm. replace (op + 6 - 6) with op by lia. split; [reflexivity|]. apply ec_plain; lia.
   - destruct ((16 <=? n) && (n <=? 16 + 255)) eqn:En; [|discriminate]. inversion Hhd; subst hb. clear Hhd.
     apply andb_true_iff in En. destruct En as [E1 E2]. apply N.leb_le in E1, E2.
-    split; [|lia]. exists 192, [n - 16], 0, 16, ((n - 16) :: rest). split; [reflexivity|]. cbn [app].
-    rewrite dh_lite by lia. split; [reflexivity|].
+    split; [|lia]. exists ((op + 6) * 16), [n - 16], 0, 16, ((n - 16) :: rest). split; [reflexivity|]. cbn [app].
+    destruct (divmod_add 16 (op + 6) 0 ltac:(lia) ltac:(lia)) as [Hd Hm]. rewrite N.add_0_r in Hd, Hm.
+    rewrite dh_lite by lia. rewrite Hd, Hm. replace (op + 6 - 6) with op by lia. split; [reflexivity|].
     rewrite ec_ext by lia. repeat f_equal. lia.
   - destruct ((1 <=? n) && (n <=? 65535)) eqn:En; [|discriminate]. inversion Hhd; subst hb. clear Hhd.
     apply andb_true_iff in En. destruct En as [E1 E2]. apply N.leb_le in E1, E2.
-    split; [|lia]. exists 246, (le16 n), n, 0, rest. split; [reflexivity|].
-    change 246 with (240 + 6). rewrite dh_mega by lia. split; reflexivity.
+    split; [|lia]. exists (240 + op), (le16 n), n, 0, rest. split; [reflexivity|].
+    rewrite dh_mega by lia. split; reflexivity.
+Qed.
+
+(* the special FGBG codes F9 / FA *)
+Lemma dh_special8 k inp : 9 <= k -> k < 11 -> decode_header (240 + k) inp = Ok (k, 8, 0, inp).
+Proof.
+  intros H1 H2. unfold decode_header.
+  destruct (divmod_add 16 15 k ltac:(lia) ltac:(lia)) as [Hd Hm]. change (15 * 16) with 240 in Hd, Hm.
+  rewrite Hd, Hm. cbn [N.eqb Pos.eqb orb].
+  assert (E : k <? 9 = false) by (apply N.ltb_ge; lia). rewrite E.
+  assert (E' : k <? 11 = true) by (apply N.ltb_lt; lia). rewrite E'. reflexivity.
+Qed.
+
+(* FGBG images: the header counts groups of 8 pixels, the extension byte counts pixels - 1 *)
+Lemma ec_fom_short op cnt off inp : op = 2 \/ op = 7 -> off <> 0 -> cnt <> 0 -> cnt * 8 < 4294967296 ->
+  extend_count p op cnt off inp = Ok (cnt * 8, inp).
+Proof.
+  intros Ho Hoff Hc Hb. unfold extend_count.
+  apply N.eqb_neq in Hoff, Hc. rewrite Hoff, Hc. cbn [negb].
+  assert (E : (op =? 2) || (op =? 7) = true) by (destruct Ho as [-> | ->]; reflexivity). rewrite E.
+  rewrite pow32. rewrite N.mod_small by exact Hb. reflexivity.
+Qed.
+
+Lemma ec_fom_ext op off b inp : op = 2 \/ op = 7 -> off <> 0 -> b + 1 < 4294967296 ->
+  extend_count p op 0 off (b :: inp) = Ok (b + 1, inp).
+Proof.
+  intros Ho Hoff Hb. unfold extend_count.
+  apply N.eqb_neq in Hoff. rewrite Hoff. cbn [negb N.eqb read_u8].
+  assert (E : (op =? 2) || (op =? 7) = true) by (destruct Ho as [-> | ->]; reflexivity). rewrite E.
+  rewrite add32 by exact Hb. reflexivity.
+Qed.
+
+Lemma hdr_fom f code bits mega op n hb rest :
+  (code = 64 /\ bits = 31 /\ mega = 242 /\ op = 2) \/ (code = 208 /\ bits = 15 /\ mega = 247 /\ op = 7) ->
+  hdr_fgbg f code bits mega n = Some hb -> hdr_spec op n hb rest /\ 1 <= n <= 65535.
+Proof.
+  intros Hk Hhd. unfold hdr_spec.
+  assert (Hop : op = 2 \/ op = 7) by (destruct Hk as [(_ & _ & _ & ->)|(_ & _ & _ & ->)]; auto).
+  destruct f; cbn [hdr_fgbg] in Hhd.
+  - destruct ((n mod 8 =? 0) && (1 <=? n / 8) && (n / 8 <=? bits)) eqn:En; [|discriminate]. inversion Hhd; subst hb. clear Hhd.
+    apply andb_true_iff in En. destruct En as [En E3]. apply andb_true_iff in En. destruct En as [E1 E2].
+    apply N.eqb_eq in E1. apply N.leb_le in E2, E3.
+    assert (Hn8 : n / 8 * 8 = n) by lia.
+    destruct Hk as [(-> & -> & -> & ->)|(-> & -> & -> & ->)].
+    + split; [|lia]. exists (64 + n / 8), [], (n / 8), 32, rest. split; [reflexivity|]. cbn [app].
+      destruct (divmod_add 32 2 (n / 8) ltac:(lia) ltac:(lia)) as [Hd Hm]. change (2 * 32) with 64 in Hd, Hm.
+      rewrite dh_reg by lia. rewrite Hd, Hm. split; [reflexivity|].
+      rewrite ec_fom_short by lia. rewrite Hn8. reflexivity.
+    + split; [|lia]. exists (208 + n / 8), [], (n / 8), 16, rest. split; [reflexivity|]. cbn [app].
+      destruct (divmod_add 16 13 (n / 8) ltac:(lia) ltac:(lia)) as [Hd Hm]. change (13 * 16) with 208 in Hd, Hm.
+      rewrite dh_lite by lia. rewrite Hd, Hm. split; [reflexivity|].
+      rewrite ec_fom_short by lia. rewrite Hn8. reflexivity.
+  - destruct ((1 <=? n) && (n <=? 256)) eqn:En; [|discriminate]. inversion Hhd; subst hb. clear Hhd.
+    apply andb_true_iff in En. destruct En as [E1 E2]. apply N.leb_le in E1, E2.
+    destruct Hk as [(-> & -> & -> & ->)|(-> & -> & -> & ->)].
+    + split; [|lia]. exists 64, [n - 1], 0, 32, ((n - 1) :: rest). split; [reflexivity|]. cbn [app].
+      rewrite dh_reg by lia. split; [reflexivity|].
+      rewrite ec_fom_ext by lia. repeat f_equal. lia.
+    + split; [|lia]. exists 208, [n - 1], 0, 16, ((n - 1) :: rest). split; [reflexivity|]. cbn [app].
+      rewrite dh_lite by lia. split; [reflexivity|].
+      rewrite ec_fom_ext by lia. repeat f_equal. lia.
+  - destruct ((1 <=? n) && (n <=? 65535)) eqn:En; [|discriminate]. inversion Hhd; subst hb. clear Hhd.
+    apply andb_true_iff in En. destruct En as [E1 E2]. apply N.leb_le in E1, E2.
+    destruct Hk as [(-> & -> & -> & ->)|(-> & -> & -> & ->)].
+    + split; [|lia]. exists 242, (le16 n), n, 0, rest. split; [reflexivity|].
+      change 242 with (240 + 2). rewrite dh_mega by lia. split; reflexivity.
+    + split; [|lia]. exists 247, (le16 n), n, 0, rest. split; [reflexivity|].
+      change 247 with (240 + 7). rewrite dh_mega by lia. split; reflexivity.
 Qed.
 
 
+(* ---- FGBG images (FGBG, SET-FGBG, F9, FA): the expression shifts a one-bit mask through the current mask
+   byte and fetches the next mask byte (from the input, or the constant of the special code) every 8 pixels;
+   mask and mixmask live in the decoder state across scan lines *)
+Lemma land_pow2 a k : N.land a (2 ^ k) = if N.testbit a k then 2 ^ k else 0.
+Proof.
+  apply N.bits_inj. intro j. rewrite N.land_spec, N.pow2_bits_eqb.
+  destruct (N.eqb_spec k j) as [->|Hne].
+  - destruct (N.testbit a j) eqn:E; [rewrite N.pow2_bits_true; reflexivity|rewrite N.bits_0; reflexivity].
+  - rewrite andb_false_r. destruct (N.testbit a k); [rewrite N.pow2_bits_false by exact Hne; reflexivity|rewrite N.bits_0; reflexivity].
+Qed.
+
+Lemma pow2_shl k : k < 7 -> (2 ^ k * 2) mod 256 = 2 ^ (k + 1).
+Proof.
+  intros Hk. assert (Hc : k = 0 \/ k = 1 \/ k = 2 \/ k = 3 \/ k = 4 \/ k = 5 \/ k = 6) by lia.
+  destruct Hc as [->|[->|[->|[->|[->|[->| ->]]]]]]; reflexivity.
+Qed.
+
+Lemma skipn_nth {A} (d : A) : forall k (l : list A), (k < length l)%nat -> skipn k l = nth k l d :: skipn (S k) l.
+Proof.
+  induction k as [|k IH]; intros l Hk; destruct l as [|a l]; cbn [length] in Hk; try lia; [reflexivity|].
+  cbn [skipn nth]. rewrite (IH l) by lia. reflexivity.
+Qed.
+
+Lemma set_mask_same s : set_mask s (s_mask s) = s.
+Proof. destruct s. reflexivity. Qed.
+
+Lemma inl_step fg r out s s' v : inl fg r out s -> s_x s < w ->
+  s_out s' = bset_raw (s_out s) ((h - 1 - r) * w + s_x s) v -> s_x s' = s_x s + 1 ->
+  s_line s' = s_line s -> s_prev s' = s_prev s -> s_hgt s' = s_hgt s -> s_mix s' = s_mix s ->
+  inl fg r (out ++ [v]) s'.
+Proof.
+  intros Hi Hx E1 E2 E3 E4 E5 E6.
+  pose proof (inl_written fg r out s v (s_x s + 1) (s_cnt s) (s_inp s) Hi Hx eq_refl) as Hw1.
+  eapply inl_ext; [exact Hw1|..]; prj; assumption.
+Qed.
+
+Lemma mask_bit_N masks i : mask_bit masks (N.to_nat i) = N.testbit (nth (N.to_nat (i / 8)) masks 0) (i mod 8).
+Proof.
+  unfold mask_bit. rewrite N2Nat.inj_div. change (N.to_nat 8) with 8%nat. f_equal.
+  rewrite <- (N2Nat.id (i mod 8)). rewrite N2Nat.inj_mod. reflexivity.
+Qed.
+
+Definition px_fom (n0 fg : N) (masks : list N) (out : list N) : N :=
+  if mask_bit masks (N.to_nat (nlen out - n0)) then fg_px w fg out else bg_px w out.
+
+Lemma run_fom n0 fg masks : forall n i out, nlen out = n0 + N.of_nat i ->
+  run n (px_fom n0 fg masks) out = fgbg n i w fg masks out.
+Proof.
+  induction n as [|n IH]; intros i out Hn; [reflexivity|].
+  cbn [run fgbg].
+  assert (E : px_fom n0 fg masks out = if mask_bit masks i then fg_px w fg out else bg_px w out).
+  { unfold px_fom. replace (N.to_nat (nlen out - n0)) with i by lia. reflexivity. }
+  rewrite E. apply IH. rewrite nlen_app, nlen_cons, nlen_nil. lia.
+Qed.
+
+Lemma fom_body_eq fg r out s1 : inl fg r out s1 -> s_x s1 < w -> 1 <= s_cnt s1 ->
+  (if r =? 0 then (if fom_bit s1 then b_mix p s1 else b_const p 0 s1)
+   else (if fom_bit s1 then b_mixprev p ((h - r) * w) s1 else b_copy p ((h - r) * w) s1)) =
+  Ok (set_out s1 (bset_raw (s_out s1) ((h - 1 - r) * w + s_x s1) (if fom_bit s1 then fg_px w fg out else bg_px w out))).
+Proof.
+  intros Hi Hx Hc. destruct (fom_bit s1).
+  - destruct (body_fg fg r (s_inp s1) out s1 Hi Hx Hc eq_refl) as (j & Eb & Ej). unfold inp_is in Ej. subst j.
+    rewrite set_inp_same in Eb. destruct (r =? 0); exact Eb.
+  - destruct (body_bg fg r (s_inp s1) out s1 Hi Hx Hc eq_refl) as (j & Eb & Ej). unfold inp_is in Ej. subst j.
+    rewrite set_inp_same in Eb. destruct (r =? 0); exact Eb.
+Qed.
+
+Section Fom.
+Variables n0 n fom : N.
+Variable masks : list N.
+Variable rest : bytes.
+Hypothesis Hmasks : nlen masks = (n + 7) / 8.
+Hypothesis Hfom : fom = 0 \/ (fom <> 0 /\ masks = [fom] /\ n = 8).
+
+(* i pixels of the order are done: (i+7)/8 mask bytes are consumed, the current bit is that of pixel i-1 *)
+Definition Ifom (out : list N) (s : st) : Prop :=
+  exists i, nlen out = n0 + i /\ i + s_cnt s = n /\
+    s_inp s = (if fom =? 0 then skipn (N.to_nat ((i + 7) / 8)) masks else []) ++ rest /\
+    (i = 0 -> s_mixmask s = 0) /\
+    (0 < i -> s_mixmask s = 2 ^ ((i - 1) mod 8) /\ s_mask s = nth (N.to_nat ((i - 1) / 8)) masks 0) /\
+    Kst 2 s.
+
+Lemma fom_mask_step_eq s i : i + s_cnt s = n -> 1 <= s_cnt s ->
+  s_inp s = (if fom =? 0 then skipn (N.to_nat ((i + 7) / 8)) masks else []) ++ rest ->
+  (i = 0 -> s_mixmask s = 0) ->
+  (0 < i -> s_mixmask s = 2 ^ ((i - 1) mod 8) /\ s_mask s = nth (N.to_nat ((i - 1) / 8)) masks 0) ->
+  exists i', fom_mask_step fom s = Ok (set_mixmask (set_mask (set_inp s i') (nth (N.to_nat (i / 8)) masks 0)) (2 ^ (i mod 8))) /\
+             i' = (if fom =? 0 then skipn (N.to_nat ((i + 1 + 7) / 8)) masks else []) ++ rest.
+Proof.
+  intros Hcnt Hc Hinp Hmm0 Hmm1. unfold fom_mask_step.
+  destruct (N.eq_dec (i mod 8) 0) as [Hz|Hnz].
+  - (* a new mask byte *)
+    assert (Emm : (s_mixmask s * 2) mod 256 = 0).
+    { destruct (N.eq_dec i 0) as [Hi0|Hi0]; [rewrite Hmm0 by exact Hi0; reflexivity|].
+      destruct (Hmm1 ltac:(lia)) as [-> _]. replace ((i - 1) mod 8) with 7 by lia. reflexivity. }
+    rewrite Emm. change (0 =? 0) with true. cbv iota. rewrite Hz. change (2 ^ 0) with 1.
+    destruct Hfom as [Hf0|(Hf0 & Hm & Hn8)].
+    + subst fom. change (negb (0 =? 0)) with false. cbv iota. change (0 =? 0) with true in *. cbv iota in *.
+      replace ((i + 7) / 8) with (i / 8) in Hinp by lia.
+      rewrite (skipn_nth 0) in Hinp by (unfold nlen in Hmasks; lia).
+      rewrite Hinp. cbn [app read_u8]. eexists. split; [reflexivity|].
+      do 3 f_equal. lia.
+    + assert (E : fom =? 0 = false) by (apply N.eqb_neq; exact Hf0). rewrite E in *. cbn [negb]. cbv iota.
+      assert (i = 0) by lia. subst i. rewrite Hm. change (nth (N.to_nat (0 / 8)) [fom] 0) with fom.
+      exists (s_inp s). rewrite set_inp_same. split; [reflexivity|exact Hinp].
+  - (* the next bit of the current mask byte *)
+    destruct (Hmm1 ltac:(lia)) as [Emm Emask].
+    rewrite Emm. rewrite pow2_shl by lia. replace ((i - 1) mod 8 + 1) with (i mod 8) by lia.
+    assert (E : 2 ^ (i mod 8) =? 0 = false) by (apply N.eqb_neq; apply N.pow_nonzero; lia). rewrite E.
+    exists (s_inp s). rewrite set_inp_same. replace (i / 8) with ((i - 1) / 8) by lia. rewrite <- Emask, set_mask_same.
+    split; [reflexivity|]. rewrite Hinp. replace ((i + 1 + 7) / 8) with ((i + 7) / 8) by lia. reflexivity.
+Qed.
+
+Lemma step_fom fg r :
+  step_px fg r (if r =? 0 then b_fom_first p fom else b_fom_prev p fom ((h - r) * w)) (px_fom n0 fg masks) Ifom s_cnt.
+Proof.
+  intros out s Hi Hx Hc (i & Hn & Hcnt & Hinp & Hmm0 & Hmm1 & HK).
+  destruct (fom_mask_step_eq s i Hcnt Hc Hinp Hmm0 Hmm1) as (i' & Ems & Ei').
+  set (s1 := set_mixmask (set_mask (set_inp s i') (nth (N.to_nat (i / 8)) masks 0)) (2 ^ (i mod 8))) in *.
+  assert (Hi1 : inl fg r out s1) by (eapply inl_ext; [exact Hi|..]; reflexivity).
+  assert (Hbit : fom_bit s1 = mask_bit masks (N.to_nat (nlen out - n0))).
+  { replace (nlen out - n0) with i by lia. rewrite mask_bit_N. unfold fom_bit. subst s1. prj. rewrite land_pow2.
+    destruct (N.testbit _ _); [|reflexivity].
+    assert (E : 2 ^ (i mod 8) =? 0 = false) by (apply N.eqb_neq; apply N.pow_nonzero; lia). rewrite E. reflexivity. }
+  pose proof (fom_body_eq fg r out s1 Hi1 Hx Hc) as Eb. rewrite Hbit in Eb. fold (px_fom n0 fg masks out) in Eb.
+  unfold step.
+  assert (Ebody : (if r =? 0 then b_fom_first p fom else b_fom_prev p fom ((h - r) * w)) s =
+                  Ok (set_out s1 (bset_raw (s_out s1) ((h - 1 - r) * w + s_x s1) (px_fom n0 fg masks out)))).
+  { destruct (r =? 0); [unfold b_fom_first|unfold b_fom_prev]; rewrite Ems; cbn [obind]; fold s1; rewrite Hbit; exact Eb. }
+  rewrite Ebody. cbn [obind]. subst s1. prj.
+  rewrite sub32 by lia. cbn [obind].
+  pose proof (ps_xw _ _ _ (il_pos _ _ _ _ Hi)).
+  rewrite add64 by lia. cbn [obind].
+  eexists. split; [reflexivity|].
+  split; [eapply inl_step; [exact Hi|exact Hx|..]; reflexivity|]. prj.
+  split; [reflexivity|]. split; [|lia].
+  exists (i + 1). rewrite nlen_app, nlen_cons, nlen_nil. prj.
+  split; [lia|]. split; [lia|]. split; [exact Ei'|]. split; [lia|].
+  split; [intros _; replace (i + 1 - 1) with i by lia; split; reflexivity|].
+  destruct HK as (K1 & K2 & K3). unfold Kst. prj. fin.
+Qed.
+
+Lemma fom_run fg out s1 :
+  lazy fg out s1 -> nlen out = n0 -> s_inp s1 = (if fom =? 0 then masks else []) ++ rest ->
+  s_insmix s1 = false -> s_bic s1 = false -> nlen out + n <= w * h ->
+  exists s', cnt_loop p w (S (S (N.to_nat (s_hgt s1)))) 2 fom (set_cnt (set_mixmask (set_lastop s1 2) 0) n) = Ok s' /\
+             lazy fg (fgbg (N.to_nat n) 0 w fg masks out) s' /\ Kst 2 s' /\ s_inp s' = rest.
+Proof.
+  intros Hlz Hn0 Hinp Hins Hbic Hlen.
+  destruct (order_run fg 2 fom (px_fom n0 fg masks) Ifom s_cnt) with (out := out) (s1 := s1) (n := n)
+    as (s' & E & Hlz' & HI' & Hc').
+  - intros o s _. split; [reflexivity|auto].
+  - intros o s hg l (i & A1 & A2 & A3 & A4 & A5 & A6). split; [|reflexivity].
+    exists i. prj. fin.
+  - intros r o s Hi _. exists (if r =? 0 then b_fom_first p fom else b_fom_prev p fom ((h - r) * w)).
+    split; [|apply step_fom].
+    unfold handler. change (2 =? 0) with false. change (2 =? 1) with false. change (2 =? 2) with true. cbv iota.
+    rewrite (ps_prev _ _ _ (il_pos _ _ _ _ Hi)). destruct (r =? 0); reflexivity.
+  - exact Hlz.
+  - exists 0. prj. fin. unfold Kst. prj. fin.
+  - prj. exact Hlen.
+  - prj. exists s'. split; [exact E|].
+    rewrite (run_fom n0 fg masks (N.to_nat n) 0 out) in Hlz', HI' by lia.
+    split; [exact Hlz'|]. destruct HI' as (i & A1 & A2 & A3 & _ & _ & A6). split; [exact A6|].
+    assert (Hi : i = n) by lia. subst i. rewrite A3.
+    destruct (fom =? 0); [|reflexivity].
+    rewrite <- Hmasks. replace (N.to_nat (nlen masks)) with (length masks) by (unfold nlen; lia).
+    rewrite skipn_all. reflexivity.
+Qed.
+
+End Fom.
+
+
+(* ---- dithered run: colour1 and colour2 alternately; the expression increments count on the first of each
+   pair, so that count pairs are 2*count - [bicolour] pixels *)
+Definition px_dith (n0 c1 c2 : N) (out : list N) : N := if (nlen out - n0) mod 2 =? 0 then c1 else c2.
+Definition rem_dith (s : st) : N := 2 * s_cnt s - (if s_bic s then 1 else 0).
+
+Lemma run_dith n0 c1 c2 : forall k out, n0 <= nlen out -> (nlen out - n0) mod 2 = 0 ->
+  run (2 * k) (px_dith n0 c1 c2) out = dither k c1 c2 out.
+Proof.
+  induction k as [|k IH]; intros out H0 Hev; [reflexivity|].
+  replace (2 * S k)%nat with (S (S (2 * k))) by lia. cbn [run dither].
+  assert (E1 : px_dith n0 c1 c2 out = c1) by (unfold px_dith; rewrite Hev; reflexivity).
+  assert (E2 : px_dith n0 c1 c2 (out ++ [c1]) = c2).
+  { unfold px_dith. rewrite nlen_app, nlen_cons, nlen_nil.
+    assert (E : (nlen out + (1 + 0) - n0) mod 2 =? 0 = false) by (apply N.eqb_neq; lia). rewrite E. reflexivity. }
+  rewrite E1, E2. rewrite <- app_assoc. cbn [app]. apply IH.
+  - rewrite nlen_app, !nlen_cons, nlen_nil. lia.
+  - rewrite nlen_app, !nlen_cons, nlen_nil. lia.
+Qed.
+
+Section Dither.
+Variables n0 n c1 c2 : N.
+Variable rest : bytes.
+Hypothesis Hn : n <= 65535.
+
+Definition Idith (out : list N) (s : st) : Prop :=
+  exists i, nlen out = n0 + i /\ i + rem_dith s = 2 * n /\
+    ((s_bic s = false /\ i mod 2 = 0) \/ (s_bic s = true /\ i mod 2 = 1 /\ 1 <= s_cnt s)) /\
+    s_c1 s = c1 /\ s_c2 s = c2 /\ s_inp s = rest /\ s_lastop s = 8 /\ s_insmix s = false.
+
+Lemma rem_ok_dith : rem_ok Idith rem_dith.
+Proof.
+  intros out s (i & A1 & A2 & A3 & _). unfold rem_dith in *.
+  destruct A3 as [(-> & _)|(-> & _ & Hc)]; lia.
+Qed.
+
+Lemma step_dith fg r : step_px fg r (b_bicol p) (px_dith n0 c1 c2) Idith rem_dith.
+Proof.
+  intros out s Hi Hx Hc (i & A1 & A2 & A3 & A4 & A5 & A6 & A7 & A8).
+  pose proof (ps_xw _ _ _ (il_pos _ _ _ _ Hi)) as Hxw.
+  unfold step, b_bicol, rem_dith in *.
+  destruct A3 as [(Eb & Hev)|(Eb & Hod & Hc1)]; rewrite Eb in *.
+  - (* colour1; count += 1 *)
+    assert (Epx : px_dith n0 c1 c2 out = c1).
+    { unfold px_dith. replace (nlen out - n0) with i by lia. rewrite Hev. reflexivity. }
+    rewrite (wr_eq fg r out s (s_c1 s) Hi Hx). cbn [obind]. prj.
+    rewrite add32 by lia. cbn [obind]. prj.
+    rewrite sub32 by lia. cbn [obind].
+    rewrite add64 by lia. cbn [obind].
+    eexists. split; [reflexivity|]. rewrite Epx, <- A4.
+    split; [eapply inl_step; [exact Hi|exact Hx|..]; reflexivity|]. prj.
+    split; [reflexivity|]. split; [|lia].
+    exists (i + 1). rewrite nlen_app, nlen_cons, nlen_nil. unfold rem_dith. prj.
+    split; [lia|]. split; [lia|]. split; [right; fin|]. fin.
+  - (* colour2 *)
+    assert (Epx : px_dith n0 c1 c2 out = c2).
+    { unfold px_dith. replace (nlen out - n0) with i by lia. rewrite Hod. reflexivity. }
+    rewrite (wr_eq fg r out s (s_c2 s) Hi Hx). cbn [obind]. prj.
+    rewrite sub32 by lia. cbn [obind].
+    rewrite add64 by lia. cbn [obind].
+    eexists. split; [reflexivity|]. rewrite Epx, <- A5.
+    split; [eapply inl_step; [exact Hi|exact Hx|..]; reflexivity|]. prj.
+    split; [reflexivity|]. split; [|lia].
+    exists (i + 1). rewrite nlen_app, nlen_cons, nlen_nil. unfold rem_dith. prj.
+    split; [lia|]. split; [lia|]. split; [left; fin|]. fin.
+Qed.
+
+Lemma dith_run fg out s1 :
+  lazy fg out s1 -> nlen out = n0 -> s_inp s1 = rest -> s_c1 s1 = c1 -> s_c2 s1 = c2 ->
+  s_insmix s1 = false -> s_bic s1 = false -> nlen out + 2 * n <= w * h ->
+  exists s', cnt_loop p w (S (S (N.to_nat (s_hgt s1)))) 8 0 (set_cnt (set_mixmask (set_lastop s1 8) 0) n) = Ok s' /\
+             lazy fg (dither (N.to_nat n) c1 c2 out) s' /\ Kst 8 s' /\ s_inp s' = rest.
+Proof.
+  intros Hlz Hn0 Hinp Hc1 Hc2 Hins Hbic Hlen.
+  destruct (order_run fg 8 0 (px_dith n0 c1 c2) Idith rem_dith rem_ok_dith) with (out := out) (s1 := s1) (n := n)
+    as (s' & E & Hlz' & HI' & Hc').
+  - intros o s hg l (i & A1 & A2 & A3 & A4 & A5 & A6 & A7 & A8). split; [|reflexivity].
+    exists i. unfold rem_dith in *. prj. fin.
+  - intros r o s Hi _. exists (b_bicol p). split; [reflexivity|apply step_dith].
+  - exact Hlz.
+  - exists 0. unfold rem_dith. prj. rewrite Hbic. fin.
+  - unfold rem_dith. prj. rewrite Hbic. lia.
+  - unfold rem_dith in Hlz', HI'. prj. rewrite Hbic in Hlz', HI'.
+    replace (N.to_nat (2 * n - 0)) with (2 * N.to_nat n)%nat in Hlz', HI' by lia.
+    rewrite (run_dith n0 c1 c2 (N.to_nat n) out) in Hlz', HI' by (rewrite ?Hn0, ?N.sub_diag; try reflexivity; lia).
+    exists s'. split; [exact E|]. split; [exact Hlz'|].
+    destruct HI' as (i & A1 & A2 & A3 & A4 & A5 & A6 & A7 & A8). split; [|exact A6].
+    unfold Kst. fin. unfold rem_dith in A2. destruct A3 as [(Eb & _)|(Eb & _ & Hc1')]; [exact Eb|lia].
+Qed.
+
+End Dither.
+
 (* ---- one order *)
-Definition supported (o : RefRle.order) : bool :=
+Definition plain_order (o : RefRle.order) : bool :=
   match o with
   | OBg _ | OFg _ | OSetFg _ _ | OColor _ _ | OImage _ | OWhite | OBlack => true
   | _ => false
@@ -684,7 +1125,12 @@ Definition supported (o : RefRle.order) : bool :=
 
 Definition Rel (ss : sstate) (s : st) : Prop :=
   lazy (ss_fg ss) (ss_out ss) s /\ (s_lastop s = 0 <-> ss_ins ss = true) /\ s_insmix s = false /\
-  (ss_ins ss = true -> ss_out ss <> []).
+  (ss_ins ss = true -> ss_out ss <> []) /\ s_bic s = false.
+
+Lemma Rel_intro ss' s' op :
+  lazy (ss_fg ss') (ss_out ss') s' -> Kst op s' -> (op = 0 <-> ss_ins ss' = true) ->
+  (ss_ins ss' = true -> ss_out ss' <> []) -> Rel ss' s'.
+Proof. intros Hlz (K1 & K2 & K3) Hop Hne. unfold Rel. rewrite K1. fin. Qed.
 
 Lemma lazy_ext fg fg' out s s' :
   lazy fg out s -> s_out s' = s_out s -> s_x s' = s_x s -> s_line s' = s_line s -> s_prev s' = s_prev s ->
@@ -700,26 +1146,6 @@ Lemma order_unfold code s0 op cnt0 off r1 n r2 op' fom s1 :
   order_params w op (set_inp s0 r2) = Ok (op', fom, s1) ->
   Rle16.order p w code s0 = cnt_loop p w (S (S (N.to_nat (s_hgt s1)))) op' fom (set_cnt (set_mixmask (set_lastop s1 op') 0) n).
 Proof. intros E1 E2 E3. unfold Rle16.order. rewrite E1, E2, E3. reflexivity. Qed.
-
-(* a plain run of n pixels from the state an order header leaves *)
-Lemma plain_run fg op fom px istep Iinv (K : st -> Prop) out s1 n :
-  (forall s s', K s -> same_params s s' -> K s') ->
-  (forall r out s, inl fg r out s -> K s -> exists body, handler p w op fom s = repeat_m p w body s /\ body_px fg r body px istep Iinv) ->
-  lazy fg out s1 -> K (set_cnt (set_mixmask (set_lastop s1 op) 0) n) -> Iinv out (s_inp s1) n -> nlen out + n <= w * h ->
-  exists s', cnt_loop p w (S (S (N.to_nat (s_hgt s1)))) op fom (set_cnt (set_mixmask (set_lastop s1 op) 0) n) = Ok s' /\
-             lazy fg (run (N.to_nat n) px out) s' /\ s_lastop s' = op /\ s_insmix s' = s_insmix s1 /\
-             s_inp s' = Nat.iter (N.to_nat n) istep (s_inp s1).
-Proof.
-  intros HK Hop Hlz HKs HI Hn.
-  set (s2 := set_cnt (set_mixmask (set_lastop s1 op) 0) n) in *.
-  destruct (run_loop fg op fom px istep Iinv K HK Hop (S (S (N.to_nat (s_hgt s1)))) out s2) as (s' & E & Hlz' & Hp' & Hc' & Hi').
-  - eapply lazy_ext; [exact Hlz|..]; subst s2; prj; try reflexivity. destruct Hlz as (_ & _ & Hm & _). exact Hm.
-  - exact HKs.
-  - subst s2. prj. exact HI.
-  - subst s2. prj. exact Hn.
-  - right. unfold meas. subst s2. prj. destruct (N.ltb (s_x s1) w); lia.
-  - exists s'. split; [exact E|]. subst s2. prj. destruct Hp' as (T1 & T2 & _). prj. fin.
-Qed.
 
 Lemma nlen_le16s l : nlen (le16s l) = 2 * nlen l.
 Proof. unfold nlen, le16s. rewrite (length_flat_map_block le16 2) by reflexivity. lia. Qed.
@@ -738,17 +1164,15 @@ Proof.
   - rewrite !nlen_app, nlen_cons, nlen_nil. lia.
 Qed.
 
-Lemma iter_skip2 : forall l rest, Nat.iter (length l) (skipn 2) (le16s l ++ rest) = rest.
+Lemma Iimg_done n0 pixels rest out inp : Iimg n0 pixels rest out inp 0 -> inp = rest.
 Proof.
-  induction l as [|v l IH]; intros rest; [reflexivity|].
-  cbn [length]. rewrite <- Nat.add_1_r. rewrite Nat.add_comm. rewrite iter_plus.
-  cbn [Nat.iter nat_rect le16s flat_map le16 app skipn]. apply IH.
+  intros (pre & post & _ & _ & Hpost & ->). destruct post; [reflexivity|rewrite nlen_cons in Hpost; lia].
 Qed.
 
 Lemma bg_insert_cond ss s : Rel ss s ->
   (s_lastop s =? 0) && negb ((s_x s =? w) && is_none (s_prev s)) = ss_ins ss && negb (nlen (ss_out ss) =? w).
 Proof.
-  intros ((Hl & Hc & Hm & Hcase) & Hlast & Hins & Hne).
+  intros ((Hl & Hc & Hm & Hcase) & Hlast & Hins & Hne & _).
   destruct (ss_ins ss) eqn:Ei.
   - assert (E : s_lastop s =? 0 = true) by (apply N.eqb_eq; apply Hlast; reflexivity). rewrite E. cbn [andb]. f_equal.
     destruct Hcase as [(H0 & _)|(r & [P1 P2 P3 P4 P5 P6] & Hn & Hx)]; [exfalso; apply (Hne eq_refl); exact H0|].
@@ -761,14 +1185,16 @@ Proof.
     rewrite E. reflexivity.
 Qed.
 
-Lemma order_step o f hb rest ss s :
-  supported o = true -> ser f o = Some hb -> Rel ss s -> s_inp s = hb ++ rest ->
+(* the orders whose repeat! expression only stores a pixel *)
+Lemma order_step_plain o f hb rest ss s :
+  plain_order o = true -> ser f o = Some hb -> Rel ss s -> s_inp s = hb ++ rest ->
   nlen (ss_out (sem_order w o ss)) <= w * h ->
   exists code t s', hb = code :: t /\ Rle16.order p w code (set_inp s (t ++ rest)) = Ok s' /\
                     Rel (sem_order w o ss) s' /\ s_inp s' = rest.
 Proof.
   intros Hsup Hser HR Hin Hlen.
-  pose proof HR as (Hlz & Hlast & Hins & Hne).
+  pose proof HR as (Hlz & Hlast & Hins & Hne & Hbic).
+  assert (Hmix : s_mix s = ss_fg ss) by (destruct Hlz as (_ & _ & Hm & _); exact Hm).
   destruct o; try discriminate; cbn [ser] in Hser; cbn [sem_order ss_out ss_fg ss_ins] in *.
   - (* background run *)
     destruct (hdr_reg f 0 n hb rest ltac:(lia) ltac:(lia) Hser) as ((code & t & cnt0 & off & r1 & -> & E1 & E2) & Hn1).
@@ -776,23 +1202,25 @@ Proof.
     set (s0 := set_inp s (t ++ rest)).
     pose proof (bg_insert_cond ss s HR) as Hcond.
     assert (Hlz0 : lazy (ss_fg ss) (ss_out ss) (set_inp s0 rest)).
-    { eapply lazy_ext; [exact Hlz|..]; subst s0; prj; try reflexivity. destruct Hlz as (_ & _ & Hm & _). exact Hm. }
+    { eapply lazy_ext; [exact Hlz|..]; subst s0; prj; try reflexivity. exact Hmix. }
     destruct (ss_ins ss && negb (nlen (ss_out ss) =? w)) eqn:Ecase.
     + (* the inserted foreground pixel *)
       assert (E3 : order_params w 0 (set_inp s0 rest) = Ok (0, 0, set_insmix (set_inp s0 rest) true)).
       { unfold order_params. change (0 =? 0) with true. cbv iota. subst s0. prj. rewrite Hcond. reflexivity. }
       rewrite (order_unfold code s0 0 cnt0 off r1 n rest 0 0 _ E1 E2 E3).
       set (s2 := set_cnt (set_mixmask (set_lastop (set_insmix (set_inp s0 rest) true) 0) 0) n).
-      destruct (bg_insert_loop (ss_fg ss) 0 (S (S (N.to_nat (s_hgt s2)))) (ss_out ss) s2) as (s' & E & Hlz' & Hi' & Hl' & Hc' & Hn').
-      * eapply lazy_ext; [exact Hlz0|..]; subst s2; prj; try reflexivity. destruct Hlz as (_ & _ & Hm & _). exact Hm.
+      destruct (bg_insert_loop (ss_fg ss) 0 (S (S (N.to_nat (s_hgt s2)))) (ss_out ss) s2) as (s' & E & Hlz' & HK' & Hn').
+      * eapply lazy_ext; [exact Hlz0|..]; subst s2; prj; try reflexivity. exact Hmix.
       * subst s2. prj. reflexivity.
+      * subst s2. prj. reflexivity.
+      * subst s2 s0. prj. exact Hbic.
       * subst s2. prj. lia.
       * subst s2. prj. rewrite nlen_run, nlen_app, nlen_cons, nlen_nil in Hlen. lia.
       * unfold meas. destruct (N.ltb (s_x s2) w); lia.
       * exists s'. split; [reflexivity|]. split; [subst s2 s0; prj; exact E|].
         subst s2. prj. split; [|subst s0; prj; exact Hn'].
-        unfold Rel. cbn [ss_out ss_fg ss_ins]. split; [exact Hlz'|]. split; [split; [reflexivity|intros _; exact Hl']|].
-        split; [exact Hi'|]. intros _ H0. apply (f_equal nlen) in H0. rewrite nlen_run, nlen_app, nlen_cons, nlen_nil in H0. lia.
+        apply (Rel_intro _ s' 0); cbn [ss_out ss_fg ss_ins]; [exact Hlz'|exact HK'|split; reflexivity|].
+        intros _ H0. apply (f_equal nlen) in H0. rewrite nlen_run, nlen_app, nlen_cons, nlen_nil in H0. lia.
     + (* an ordinary background run *)
       assert (E3 : order_params w 0 (set_inp s0 rest) = Ok (0, 0, set_inp s0 rest)).
       { unfold order_params. change (0 =? 0) with true. cbv iota. subst s0. prj. rewrite Hcond. reflexivity. }
@@ -800,38 +1228,37 @@ Proof.
       assert (Hrun : run (N.to_nat n - 1) (bg_px w) (ss_out ss ++ [bg_px w (ss_out ss)]) = run (N.to_nat n) (bg_px w) (ss_out ss)).
       { replace (N.to_nat n) with (S (N.to_nat n - 1)) at 2 by lia. reflexivity. }
       rewrite Hrun in *.
-      destruct (plain_run (ss_fg ss) 0 0 (bg_px w) keep_input no_input (fun s => s_insmix s = false) (ss_out ss) (set_inp s0 rest) n)
-        as (s' & E & Hlz' & Hl' & Hi' & Hn').
-      * intros sa sb Ha (_ & Hb & _). congruence.
-      * intros r0 out0 sx Hi0 Hk0. apply (hop_bg (ss_fg ss) 0 r0 out0 sx Hi0 Hk0).
+      destruct (plain_run (ss_fg ss) 0 0 (bg_px w) (inp_is rest) (Kst 0) (ss_out ss) (set_inp s0 rest) n)
+        as (s' & E & Hlz' & HK' & Hn').
+      * apply Kst_same.
+      * intros r0 out0 sx Hi0 Hk0. apply (hop_bg (ss_fg ss) 0 rest r0 out0 sx Hi0 (proj1 (proj2 Hk0))).
       * exact Hlz0.
-      * subst s0. prj. exact Hins.
-      * exact I.
+      * subst s0. unfold Kst. prj. fin.
+      * reflexivity.
       * rewrite nlen_run in Hlen. lia.
-      * exists s'. split; [reflexivity|]. split; [exact E|]. rewrite iter_keep in Hn'. subst s0. prj.
-        split; [|exact Hn'].
-        unfold Rel. cbn [ss_out ss_fg ss_ins]. split; [exact Hlz'|]. split; [split; [reflexivity|intros _; exact Hl']|].
-        split; [congruence|]. intros _ H0. apply (f_equal nlen) in H0. rewrite nlen_run, nlen_nil in H0. lia.
+      * exists s'. split; [reflexivity|]. split; [exact E|]. split; [|exact Hn'].
+        apply (Rel_intro _ s' 0); cbn [ss_out ss_fg ss_ins]; [exact Hlz'|exact HK'|split; reflexivity|].
+        intros _ H0. apply (f_equal nlen) in H0. rewrite nlen_run, nlen_nil in H0. lia.
   - (* foreground run *)
     destruct (hdr_reg f 1 n hb rest ltac:(lia) ltac:(lia) Hser) as ((code & t & cnt0 & off & r1 & -> & E1 & E2) & Hn1).
     exists code, t.
     set (s0 := set_inp s (t ++ rest)).
     assert (E3 : order_params w 1 (set_inp s0 rest) = Ok (1, 0, set_inp s0 rest)) by reflexivity.
     rewrite (order_unfold code s0 1 cnt0 off r1 n rest 1 0 _ E1 E2 E3).
-    destruct (plain_run (ss_fg ss) 1 0 (fg_px w (ss_fg ss)) keep_input no_input (fun _ => True) (ss_out ss) (set_inp s0 rest) n)
-      as (s' & E & Hlz' & Hl' & Hi' & Hn'); auto.
-    + intros r0 out0 sx Hi0 Hk0. apply (hop_fg (ss_fg ss) 0 r0 out0 sx Hi0 Hk0).
-    + eapply lazy_ext; [exact Hlz|..]; subst s0; prj; try reflexivity. destruct Hlz as (_ & _ & Hm & _). exact Hm.
-    + exact I.
+    destruct (plain_run (ss_fg ss) 1 0 (fg_px w (ss_fg ss)) (inp_is rest) (Kst 1) (ss_out ss) (set_inp s0 rest) n)
+      as (s' & E & Hlz' & HK' & Hn').
+    + apply Kst_same.
+    + intros r0 out0 sx Hi0 Hk0. apply (hop_fg (ss_fg ss) 0 rest r0 out0 sx Hi0).
+    + eapply lazy_ext; [exact Hlz|..]; subst s0; prj; try reflexivity. exact Hmix.
+    + subst s0. unfold Kst. prj. fin.
+    + reflexivity.
     + rewrite nlen_run in Hlen. lia.
-    + exists s'. split; [reflexivity|]. split; [exact E|]. rewrite iter_keep in Hn'. subst s0. prj.
-      split; [|exact Hn'].
-      unfold Rel. cbn [ss_out ss_fg ss_ins]. split; [exact Hlz'|]. split; [split; [intros H0; rewrite Hl' in H0; discriminate|discriminate]|].
-      split; [congruence|discriminate].
+    + exists s'. split; [reflexivity|]. split; [exact E|]. split; [|exact Hn'].
+      apply (Rel_intro _ s' 1); cbn [ss_out ss_fg ss_ins]; [exact Hlz'|exact HK'|split; discriminate|discriminate].
   - (* set foreground + foreground run *)
     destruct (is16 fg) eqn:Efg; [|discriminate]. unfold is16 in Efg. apply N.ltb_lt in Efg.
     destruct (hdr_run f 192 15 16 246 n) as [h0|] eqn:Eh; [|discriminate]. cbn [omap] in Hser. inversion Hser; subst hb. clear Hser.
-    destruct (hdr_lite6 f n h0 (le16 fg ++ rest) Eh) as ((code & t & cnt0 & off & r1 & -> & E1 & E2) & Hn1).
+    destruct (hdr_lite f 6 n h0 (le16 fg ++ rest) ltac:(lia) Eh) as ((code & t & cnt0 & off & r1 & -> & E1 & E2) & Hn1).
     exists code, (t ++ le16 fg).
     set (s0 := set_inp s ((t ++ le16 fg) ++ rest)).
     assert (E1' : decode_header code (s_inp s0) = Ok (6, cnt0, off, r1)).
@@ -841,16 +1268,16 @@ Proof.
       change ((6 =? 6) || (6 =? 7)) with true. cbv iota. prj. rewrite read_le16 by exact Efg. reflexivity. }
     rewrite (order_unfold code s0 6 cnt0 off r1 n _ 1 0 _ E1' E2 E3).
     set (s1 := set_inp (set_mix (set_inp s0 (le16 fg ++ rest)) fg) rest).
-    destruct (plain_run fg 1 0 (fg_px w fg) keep_input no_input (fun _ => True) (ss_out ss) s1 n)
-      as (s' & E & Hlz' & Hl' & Hi' & Hn'); auto.
-    + intros r0 out0 sx Hi0 Hk0. apply (hop_fg fg 0 r0 out0 sx Hi0 Hk0).
+    destruct (plain_run fg 1 0 (fg_px w fg) (inp_is rest) (Kst 1) (ss_out ss) s1 n)
+      as (s' & E & Hlz' & HK' & Hn').
+    + apply Kst_same.
+    + intros r0 out0 sx Hi0 Hk0. apply (hop_fg fg 0 rest r0 out0 sx Hi0).
     + eapply lazy_ext; [exact Hlz|..]; subst s1 s0; prj; reflexivity.
-    + exact I.
+    + subst s1 s0. unfold Kst. prj. fin.
+    + reflexivity.
     + rewrite nlen_run in Hlen. lia.
-    + exists s'. split; [reflexivity|]. split; [exact E|]. rewrite iter_keep in Hn'. subst s1 s0. prj.
-      split; [|exact Hn'].
-      unfold Rel. cbn [ss_out ss_fg ss_ins]. split; [exact Hlz'|]. split; [split; [intros H0; rewrite Hl' in H0; discriminate|discriminate]|].
-      split; [congruence|discriminate].
+    + exists s'. split; [reflexivity|]. split; [exact E|]. split; [|exact Hn'].
+      apply (Rel_intro _ s' 1); cbn [ss_out ss_fg ss_ins]; [exact Hlz'|exact HK'|split; discriminate|discriminate].
   - (* colour run *)
     destruct (is16 c) eqn:Ec; [|discriminate]. unfold is16 in Ec. apply N.ltb_lt in Ec.
     destruct (hdr_run f 96 31 32 243 n) as [h0|] eqn:Eh; [|discriminate]. cbn [omap] in Hser. inversion Hser; subst hb. clear Hser.
@@ -864,18 +1291,16 @@ Proof.
       prj. rewrite read_le16 by exact Ec. reflexivity. }
     rewrite (order_unfold code s0 3 cnt0 off r1 n _ 3 0 _ E1' E2 E3).
     set (s1 := set_inp (set_c2 (set_inp s0 (le16 c ++ rest)) c) rest).
-    destruct (plain_run (ss_fg ss) 3 0 (fun _ => c) keep_input no_input (fun sx => s_c2 sx = c) (ss_out ss) s1 n)
-      as (s' & E & Hlz' & Hl' & Hi' & Hn').
-    + intros sa sb Ha (_ & _ & _ & Hb & _). congruence.
-    + intros r0 out0 sx Hi0 Hk0. apply (hop_col (ss_fg ss) 0 c r0 out0 sx Hi0 Hk0).
-    + eapply lazy_ext; [exact Hlz|..]; subst s1 s0; prj; try reflexivity. destruct Hlz as (_ & _ & Hm & _). exact Hm.
-    + subst s1. prj. reflexivity.
-    + exact I.
+    destruct (plain_run (ss_fg ss) 3 0 (fun _ => c) (inp_is rest) (fun sx => Kst 3 sx /\ s_c2 sx = c) (ss_out ss) s1 n)
+      as (s' & E & Hlz' & [HK' _] & Hn').
+    + intros sa sb [Ha Ha2] Hsp. split; [eapply Kst_same; eauto|]. destruct Hsp as (_ & _ & _ & Hb & _). congruence.
+    + intros r0 out0 sx Hi0 [_ Hk0]. apply (hop_col (ss_fg ss) 0 rest c r0 out0 sx Hi0 Hk0).
+    + eapply lazy_ext; [exact Hlz|..]; subst s1 s0; prj; try reflexivity. exact Hmix.
+    + subst s1 s0. unfold Kst. prj. fin.
+    + reflexivity.
     + rewrite nlen_run in Hlen. lia.
-    + exists s'. split; [reflexivity|]. split; [exact E|]. rewrite iter_keep in Hn'. subst s1 s0. prj.
-      split; [|exact Hn'].
-      unfold Rel. cbn [ss_out ss_fg ss_ins]. split; [exact Hlz'|]. split; [split; [intros H0; rewrite Hl' in H0; discriminate|discriminate]|].
-      split; [congruence|discriminate].
+    + exists s'. split; [reflexivity|]. split; [exact E|]. split; [|exact Hn'].
+      apply (Rel_intro _ s' 3); cbn [ss_out ss_fg ss_ins]; [exact Hlz'|exact HK'|split; discriminate|discriminate].
   - (* colour image *)
     destruct (forallb is16 pixels) eqn:Epx; [|discriminate].
     assert (Hpix : Forall (fun v => v < 65536) pixels).
@@ -889,18 +1314,18 @@ Proof.
     assert (E3 : order_params w 4 (set_inp s0 (le16s pixels ++ rest)) = Ok (4, 0, set_inp s0 (le16s pixels ++ rest))) by reflexivity.
     rewrite (order_unfold code s0 4 cnt0 off r1 (nlen pixels) _ 4 0 _ E1' E2 E3).
     set (s1 := set_inp s0 (le16s pixels ++ rest)).
-    destruct (plain_run (ss_fg ss) 4 0 (px_img (nlen (ss_out ss)) pixels) (skipn 2) (Iimg (nlen (ss_out ss)) pixels rest)
-                        (fun _ => True) (ss_out ss) s1 (nlen pixels)) as (s' & E & Hlz' & Hl' & Hi' & Hn'); auto.
-    + intros r0 out0 sx Hi0 Hk0. apply (hop_img (ss_fg ss) 0 (nlen (ss_out ss)) pixels rest r0 out0 sx Hpix Hi0 Hk0).
-    + eapply lazy_ext; [exact Hlz|..]; subst s1 s0; prj; try reflexivity. destruct Hlz as (_ & _ & Hm & _). exact Hm.
+    destruct (plain_run (ss_fg ss) 4 0 (px_img (nlen (ss_out ss)) pixels) (Iimg (nlen (ss_out ss)) pixels rest)
+                        (Kst 4) (ss_out ss) s1 (nlen pixels)) as (s' & E & Hlz' & HK' & Hn').
+    + apply Kst_same.
+    + intros r0 out0 sx Hi0 Hk0. apply (hop_img (ss_fg ss) 0 (nlen (ss_out ss)) pixels rest r0 out0 sx Hpix Hi0).
+    + eapply lazy_ext; [exact Hlz|..]; subst s1 s0; prj; try reflexivity. exact Hmix.
+    + subst s1 s0. unfold Kst. prj. fin.
     + exists [], pixels. subst s1. prj. rewrite nlen_nil. fin.
     + rewrite nlen_app in Hlen. lia.
     + replace (N.to_nat (nlen pixels)) with (length pixels) in * by (unfold nlen; lia).
-      rewrite (run_img (nlen (ss_out ss)) pixels pixels [] (ss_out ss) eq_refl ltac:(rewrite nlen_nil; lia)) in Hlz'.
-      exists s'. split; [reflexivity|]. split; [exact E|]. subst s1 s0. prj.
-      rewrite iter_skip2 in Hn'. split; [|exact Hn'].
-      unfold Rel. cbn [ss_out ss_fg ss_ins]. split; [exact Hlz'|]. split; [split; [intros H0; rewrite Hl' in H0; discriminate|discriminate]|].
-      split; [congruence|discriminate].
+      rewrite (run_img (nlen (ss_out ss)) pixels pixels [] (ss_out ss) eq_refl ltac:(rewrite nlen_nil; lia)) in Hlz', Hn'.
+      exists s'. split; [reflexivity|]. split; [exact E|]. split; [|exact (Iimg_done _ _ _ _ _ Hn')].
+      apply (Rel_intro _ s' 4); cbn [ss_out ss_fg ss_ins]; [exact Hlz'|exact HK'|split; discriminate|discriminate].
   - (* white *)
     destruct f; try discriminate. inversion Hser; subst hb. clear Hser.
     exists 253, []. cbn [app].
@@ -908,16 +1333,16 @@ Proof.
     assert (E1 : decode_header 253 (s_inp s0) = Ok (13, 1, 0, rest)) by (change 253 with (240 + 13); apply dh_special; lia).
     assert (E3 : order_params w 13 (set_inp s0 rest) = Ok (13, 0, set_inp s0 rest)) by reflexivity.
     rewrite (order_unfold 253 s0 13 1 0 rest 1 rest 13 0 _ E1 (ec_mega 13 1 rest) E3).
-    destruct (plain_run (ss_fg ss) 13 0 (fun _ => 65535) keep_input no_input (fun _ => True) (ss_out ss) (set_inp s0 rest) 1)
-      as (s' & E & Hlz' & Hl' & Hi' & Hn'); auto.
-    + intros r0 out0 sx Hi0 Hk0. apply (hop_white (ss_fg ss) 0 r0 out0 sx Hi0 Hk0).
-    + eapply lazy_ext; [exact Hlz|..]; subst s0; prj; try reflexivity. destruct Hlz as (_ & _ & Hm & _). exact Hm.
-    + exact I.
+    destruct (plain_run (ss_fg ss) 13 0 (fun _ => 65535) (inp_is rest) (Kst 13) (ss_out ss) (set_inp s0 rest) 1)
+      as (s' & E & Hlz' & HK' & Hn').
+    + apply Kst_same.
+    + intros r0 out0 sx Hi0 Hk0. apply (hop_white (ss_fg ss) 0 rest r0 out0 sx Hi0).
+    + eapply lazy_ext; [exact Hlz|..]; subst s0; prj; try reflexivity. exact Hmix.
+    + subst s0. unfold Kst. prj. fin.
+    + reflexivity.
     + rewrite nlen_app, nlen_cons, nlen_nil in Hlen. lia.
-    + exists s'. split; [reflexivity|]. split; [exact E|]. rewrite iter_keep in Hn'. subst s0. prj.
-      split; [|exact Hn'].
-      unfold Rel. cbn [ss_out ss_fg ss_ins]. split; [exact Hlz'|]. split; [split; [intros H0; rewrite Hl' in H0; discriminate|discriminate]|].
-      split; [congruence|discriminate].
+    + exists s'. split; [reflexivity|]. split; [exact E|]. split; [|exact Hn'].
+      apply (Rel_intro _ s' 13); cbn [ss_out ss_fg ss_ins]; [exact Hlz'|exact HK'|split; discriminate|discriminate].
   - (* black *)
     destruct f; try discriminate. inversion Hser; subst hb. clear Hser.
     exists 254, []. cbn [app].
@@ -925,47 +1350,160 @@ Proof.
     assert (E1 : decode_header 254 (s_inp s0) = Ok (14, 1, 0, rest)) by (change 254 with (240 + 14); apply dh_special; lia).
     assert (E3 : order_params w 14 (set_inp s0 rest) = Ok (14, 0, set_inp s0 rest)) by reflexivity.
     rewrite (order_unfold 254 s0 14 1 0 rest 1 rest 14 0 _ E1 (ec_mega 14 1 rest) E3).
-    destruct (plain_run (ss_fg ss) 14 0 (fun _ => 0) keep_input no_input (fun _ => True) (ss_out ss) (set_inp s0 rest) 1)
-      as (s' & E & Hlz' & Hl' & Hi' & Hn'); auto.
-    + intros r0 out0 sx Hi0 Hk0. apply (hop_black (ss_fg ss) 0 r0 out0 sx Hi0 Hk0).
-    + eapply lazy_ext; [exact Hlz|..]; subst s0; prj; try reflexivity. destruct Hlz as (_ & _ & Hm & _). exact Hm.
-    + exact I.
+    destruct (plain_run (ss_fg ss) 14 0 (fun _ => 0) (inp_is rest) (Kst 14) (ss_out ss) (set_inp s0 rest) 1)
+      as (s' & E & Hlz' & HK' & Hn').
+    + apply Kst_same.
+    + intros r0 out0 sx Hi0 Hk0. apply (hop_black (ss_fg ss) 0 rest r0 out0 sx Hi0).
+    + eapply lazy_ext; [exact Hlz|..]; subst s0; prj; try reflexivity. exact Hmix.
+    + subst s0. unfold Kst. prj. fin.
+    + reflexivity.
     + rewrite nlen_app, nlen_cons, nlen_nil in Hlen. lia.
-    + exists s'. split; [reflexivity|]. split; [exact E|]. rewrite iter_keep in Hn'. subst s0. prj.
-      split; [|exact Hn'].
-      unfold Rel. cbn [ss_out ss_fg ss_ins]. split; [exact Hlz'|]. split; [split; [intros H0; rewrite Hl' in H0; discriminate|discriminate]|].
-      split; [congruence|discriminate].
+    + exists s'. split; [reflexivity|]. split; [exact E|]. split; [|exact Hn'].
+      apply (Rel_intro _ s' 14); cbn [ss_out ss_fg ss_ins]; [exact Hlz'|exact HK'|split; discriminate|discriminate].
 Qed.
 
 
-(* ---- the whole stream *)
-Lemma sem_order_mono o ss : supported o = true -> nlen (ss_out ss) <= nlen (ss_out (sem_order w o ss)).
+(* the orders whose repeat! expression carries state of its own: FGBG images (mask bits) and dithered runs *)
+Lemma order_step_state o f hb rest ss s :
+  plain_order o = false -> ser f o = Some hb -> Rel ss s -> s_inp s = hb ++ rest ->
+  nlen (ss_out (sem_order w o ss)) <= w * h ->
+  exists code t s', hb = code :: t /\ Rle16.order p w code (set_inp s (t ++ rest)) = Ok s' /\
+                    Rel (sem_order w o ss) s' /\ s_inp s' = rest.
 Proof.
-  intros Hs. destruct o; try discriminate; cbn [sem_order ss_out]; rewrite ?nlen_run, ?nlen_app; try lia.
+  intros Hsup Hser HR Hin Hlen.
+  pose proof HR as (Hlz & Hlast & Hins & Hne & Hbic).
+  assert (Hmix : s_mix s = ss_fg ss) by (destruct Hlz as (_ & _ & Hm & _); exact Hm).
+  destruct o; try discriminate; cbn [ser] in Hser; cbn [sem_order ss_out ss_fg ss_ins] in *.
+  - (* FGBG image *)
+    destruct (masks_ok n masks) eqn:Emk; [|discriminate]. unfold masks_ok in Emk.
+    apply andb_true_iff in Emk. destruct Emk as [Emk _]. apply N.eqb_eq in Emk.
+    destruct (hdr_fgbg f 64 31 242 n) as [h0|] eqn:Eh; [|discriminate]. cbn [omap] in Hser. inversion Hser; subst hb. clear Hser.
+    destruct (hdr_fom f 64 31 242 2 n h0 (masks ++ rest) ltac:(left; repeat split) Eh) as ((code & t & cnt0 & off & r1 & -> & E1 & E2) & Hn1).
+    exists code, (t ++ masks).
+    set (s0 := set_inp s ((t ++ masks) ++ rest)).
+    assert (E1' : decode_header code (s_inp s0) = Ok (2, cnt0, off, r1)).
+    { subst s0. prj. rewrite <- app_assoc. exact E1. }
+    assert (E3 : order_params w 2 (set_inp s0 (masks ++ rest)) = Ok (2, 0, set_inp s0 (masks ++ rest))) by reflexivity.
+    rewrite (order_unfold code s0 2 cnt0 off r1 n _ 2 0 _ E1' E2 E3).
+    set (s1 := set_inp s0 (masks ++ rest)).
+    rewrite nlen_fgbg in Hlen.
+    destruct (fom_run (nlen (ss_out ss)) n 0 masks rest Emk ltac:(left; reflexivity) (ss_fg ss) (ss_out ss) s1)
+      as (s' & E & Hlz' & HK' & Hn'); try (subst s1 s0; prj; auto; fail).
+    + eapply lazy_ext; [exact Hlz|..]; subst s1 s0; prj; try reflexivity. exact Hmix.
+    + lia.
+    + exists s'. split; [reflexivity|]. split; [exact E|]. split; [|exact Hn'].
+      apply (Rel_intro _ s' 2); cbn [ss_out ss_fg ss_ins]; [exact Hlz'|exact HK'|split; discriminate|discriminate].
+  - (* SET-FGBG image *)
+    destruct (is16 fg && masks_ok n masks) eqn:Emk; [|discriminate].
+    apply andb_true_iff in Emk. destruct Emk as [Efg Emk]. unfold is16 in Efg. apply N.ltb_lt in Efg. unfold masks_ok in Emk.
+    apply andb_true_iff in Emk. destruct Emk as [Emk _]. apply N.eqb_eq in Emk.
+    destruct (hdr_fgbg f 208 15 247 n) as [h0|] eqn:Eh; [|discriminate]. cbn [omap] in Hser. inversion Hser; subst hb. clear Hser.
+    destruct (hdr_fom f 208 15 247 7 n h0 (le16 fg ++ masks ++ rest) ltac:(right; repeat split) Eh)
+      as ((code & t & cnt0 & off & r1 & -> & E1 & E2) & Hn1).
+    exists code, (t ++ le16 fg ++ masks).
+    set (s0 := set_inp s ((t ++ le16 fg ++ masks) ++ rest)).
+    assert (E1' : decode_header code (s_inp s0) = Ok (7, cnt0, off, r1)).
+    { subst s0. prj. rewrite <- !app_assoc. exact E1. }
+    assert (E3 : order_params w 7 (set_inp s0 (le16 fg ++ masks ++ rest)) =
+                 Ok (2, 0, set_inp (set_mix (set_inp s0 (le16 fg ++ masks ++ rest)) fg) (masks ++ rest))).
+    { unfold order_params. change (7 =? 0) with false. change (7 =? 8) with false. change (7 =? 3) with false.
+      change ((7 =? 6) || (7 =? 7)) with true. cbv iota. prj. rewrite read_le16 by exact Efg. reflexivity. }
+    rewrite (order_unfold code s0 7 cnt0 off r1 n _ 2 0 _ E1' E2 E3).
+    set (s1 := set_inp (set_mix (set_inp s0 (le16 fg ++ masks ++ rest)) fg) (masks ++ rest)).
+    rewrite nlen_fgbg in Hlen.
+    destruct (fom_run (nlen (ss_out ss)) n 0 masks rest Emk ltac:(left; reflexivity) fg (ss_out ss) s1)
+      as (s' & E & Hlz' & HK' & Hn'); try (subst s1 s0; prj; auto; fail).
+    + eapply lazy_ext; [exact Hlz|..]; subst s1 s0; prj; reflexivity.
+    + lia.
+    + exists s'. split; [reflexivity|]. split; [exact E|]. split; [|exact Hn'].
+      apply (Rel_intro _ s' 2); cbn [ss_out ss_fg ss_ins]; [exact Hlz'|exact HK'|split; discriminate|discriminate].
+  - (* dithered run *)
+    destruct (is16 c1 && is16 c2) eqn:Ec; [|discriminate].
+    apply andb_true_iff in Ec. destruct Ec as [Ec1 Ec2]. unfold is16 in Ec1, Ec2. apply N.ltb_lt in Ec1, Ec2.
+    destruct (hdr_run f 224 15 16 248 n) as [h0|] eqn:Eh; [|discriminate]. cbn [omap] in Hser. inversion Hser; subst hb. clear Hser.
+    destruct (hdr_lite f 8 n h0 (le16 c1 ++ le16 c2 ++ rest) ltac:(lia) Eh) as ((code & t & cnt0 & off & r1 & -> & E1 & E2) & Hn1).
+    exists code, (t ++ le16 c1 ++ le16 c2).
+    set (s0 := set_inp s ((t ++ le16 c1 ++ le16 c2) ++ rest)).
+    assert (E1' : decode_header code (s_inp s0) = Ok (8, cnt0, off, r1)).
+    { subst s0. prj. rewrite <- !app_assoc. exact E1. }
+    assert (E3 : order_params w 8 (set_inp s0 (le16 c1 ++ le16 c2 ++ rest)) =
+                 Ok (8, 0, set_inp (set_c2 (set_c1 (set_inp s0 (le16 c1 ++ le16 c2 ++ rest)) c1) c2) rest)).
+    { unfold order_params. change (8 =? 0) with false. change (8 =? 8) with true. cbv iota. prj.
+      rewrite read_le16 by exact Ec1. rewrite read_le16 by exact Ec2. reflexivity. }
+    rewrite (order_unfold code s0 8 cnt0 off r1 n _ 8 0 _ E1' E2 E3).
+    set (s1 := set_inp (set_c2 (set_c1 (set_inp s0 (le16 c1 ++ le16 c2 ++ rest)) c1) c2) rest).
+    rewrite nlen_dither in Hlen.
+    destruct (dith_run (nlen (ss_out ss)) n c1 c2 rest ltac:(lia) (ss_fg ss) (ss_out ss) s1)
+      as (s' & E & Hlz' & HK' & Hn'); try (subst s1 s0; prj; auto; fail).
+    + eapply lazy_ext; [exact Hlz|..]; subst s1 s0; prj; try reflexivity. exact Hmix.
+    + lia.
+    + exists s'. split; [reflexivity|]. split; [exact E|]. split; [|exact Hn'].
+      apply (Rel_intro _ s' 8); cbn [ss_out ss_fg ss_ins]; [exact Hlz'|exact HK'|split; discriminate|discriminate].
+  - (* F9 *)
+    destruct f; try discriminate. inversion Hser; subst hb. clear Hser.
+    exists 249, []. cbn [app].
+    set (s0 := set_inp s rest).
+    assert (E1 : decode_header 249 (s_inp s0) = Ok (9, 8, 0, rest)) by (change 249 with (240 + 9); apply dh_special8; lia).
+    assert (E3 : order_params w 9 (set_inp s0 rest) = Ok (2, 3, set_mask (set_inp s0 rest) 3)) by reflexivity.
+    rewrite (order_unfold 249 s0 9 8 0 rest 8 rest 2 3 _ E1 (ec_mega 9 8 rest) E3).
+    set (s1 := set_mask (set_inp s0 rest) 3).
+    rewrite nlen_fgbg in Hlen.
+    destruct (fom_run (nlen (ss_out ss)) 8 3 [3] rest eq_refl ltac:(right; repeat split; lia) (ss_fg ss) (ss_out ss) s1)
+      as (s' & E & Hlz' & HK' & Hn'); try (subst s1 s0; prj; auto; fail).
+    + eapply lazy_ext; [exact Hlz|..]; subst s1 s0; prj; try reflexivity. exact Hmix.
+    + exists s'. split; [reflexivity|]. split; [exact E|]. split; [|exact Hn'].
+      apply (Rel_intro _ s' 2); cbn [ss_out ss_fg ss_ins]; [exact Hlz'|exact HK'|split; discriminate|discriminate].
+  - (* FA *)
+    destruct f; try discriminate. inversion Hser; subst hb. clear Hser.
+    exists 250, []. cbn [app].
+    set (s0 := set_inp s rest).
+    assert (E1 : decode_header 250 (s_inp s0) = Ok (10, 8, 0, rest)) by (change 250 with (240 + 10); apply dh_special8; lia).
+    assert (E3 : order_params w 10 (set_inp s0 rest) = Ok (2, 5, set_mask (set_inp s0 rest) 5)) by reflexivity.
+    rewrite (order_unfold 250 s0 10 8 0 rest 8 rest 2 5 _ E1 (ec_mega 10 8 rest) E3).
+    set (s1 := set_mask (set_inp s0 rest) 5).
+    rewrite nlen_fgbg in Hlen.
+    destruct (fom_run (nlen (ss_out ss)) 8 5 [5] rest eq_refl ltac:(right; repeat split; lia) (ss_fg ss) (ss_out ss) s1)
+      as (s' & E & Hlz' & HK' & Hn'); try (subst s1 s0; prj; auto; fail).
+    + eapply lazy_ext; [exact Hlz|..]; subst s1 s0; prj; try reflexivity. exact Hmix.
+    + exists s'. split; [reflexivity|]. split; [exact E|]. split; [|exact Hn'].
+      apply (Rel_intro _ s' 2); cbn [ss_out ss_fg ss_ins]; [exact Hlz'|exact HK'|split; discriminate|discriminate].
+Qed.
+
+(* every order of the grammar, in every legal form *)
+Lemma order_step o f hb rest ss s :
+  ser f o = Some hb -> Rel ss s -> s_inp s = hb ++ rest ->
+  nlen (ss_out (sem_order w o ss)) <= w * h ->
+  exists code t s', hb = code :: t /\ Rle16.order p w code (set_inp s (t ++ rest)) = Ok s' /\
+                    Rel (sem_order w o ss) s' /\ s_inp s' = rest.
+Proof.
+  destruct (plain_order o) eqn:E; [apply order_step_plain|apply order_step_state]; exact E.
+Qed.
+
+(* ---- the whole stream *)
+Lemma sem_order_mono o ss : nlen (ss_out ss) <= nlen (ss_out (sem_order w o ss)).
+Proof.
+  destruct o; cbn [sem_order ss_out]; rewrite ?nlen_run, ?nlen_fgbg, ?nlen_dither, ?nlen_app; try lia.
   destruct (ss_ins ss && negb (nlen (ss_out ss) =? w)); rewrite nlen_app; lia.
 Qed.
 
-Lemma sem_from_mono : forall os ss, Forall (fun o => supported o = true) os ->
-  nlen (ss_out ss) <= nlen (ss_out (sem_from w os ss)).
+Lemma sem_from_mono : forall os ss, nlen (ss_out ss) <= nlen (ss_out (sem_from w os ss)).
 Proof.
-  induction os as [|o os IH]; intros ss Hs; [cbn; lia|].
-  pose proof (Forall_inv Hs) as Ho. pose proof (Forall_inv_tail Hs) as Hs'. cbv beta in Ho.
+  induction os as [|o os IH]; intros ss; [cbn; lia|].
   change (sem_from w (o :: os) ss) with (sem_from w os (sem_order w o ss)).
-  pose proof (sem_order_mono o ss Ho). pose proof (IH (sem_order w o ss) Hs'). lia.
+  pose proof (sem_order_mono o ss). pose proof (IH (sem_order w o ss)). lia.
 Qed.
 
-Lemma main_sem : forall os bs, serialises os bs -> Forall (fun o => supported o = true) os ->
+Lemma main_sem : forall os bs, serialises os bs ->
   forall ss s fuel, Rel ss s -> s_inp s = bs -> nlen (ss_out (sem_from w os ss)) <= w * h -> (length bs < fuel)%nat ->
   exists s', main_loop p w fuel s = Ok s' /\ Rel (sem_from w os ss) s'.
 Proof.
-  induction 1 as [|o os f b bs Hser Hrest IH]; intros Hsup ss s fuel HR Hin Hlen Hf.
+  induction 1 as [|o os f b bs Hser Hrest IH]; intros ss s fuel HR Hin Hlen Hf.
   - destruct fuel; [lia|]. cbn [main_loop]. rewrite Hin. exists s. split; [reflexivity|exact HR].
-  - pose proof (Forall_inv Hsup) as Ho. pose proof (Forall_inv_tail Hsup) as Hsup'. cbv beta in Ho.
-    change (sem_from w (o :: os) ss) with (sem_from w os (sem_order w o ss)) in *.
-    pose proof (sem_from_mono os (sem_order w o ss) Hsup') as Hm.
-    destruct (order_step o f b bs ss s Ho Hser HR Hin ltac:(lia)) as (code & t & s1 & -> & E1 & HR1 & Hin1).
+  - change (sem_from w (o :: os) ss) with (sem_from w os (sem_order w o ss)) in *.
+    pose proof (sem_from_mono os (sem_order w o ss)) as Hm.
+    destruct (order_step o f b bs ss s Hser HR Hin ltac:(lia)) as (code & t & s1 & -> & E1 & HR1 & Hin1).
     destruct fuel; [lia|]. cbn [main_loop]. rewrite Hin. cbn [app]. rewrite E1. cbn [obind].
-    apply (IH Hsup' (sem_order w o ss) s1 fuel HR1 Hin1 Hlen).
+    apply (IH (sem_order w o ss) s1 fuel HR1 Hin1 Hlen).
     cbn [app length] in Hf. rewrite app_length in Hf. lia.
 Qed.
 
